@@ -3,11 +3,28 @@
 //! Real contracts (all four factories, all 11 minter code ids, the four sg721 codes, plain/flex whitelists) in one
 //! cw-multi-test `App` (`lp_harness::minters::World`) vs the Lean model `LP.FC` (Model/FactoryCreate.lean).
 //! Protocol: see lean/LaunchpadModel/Driver/C08.lean.
+//!
+//! Round 3:
+//! * the monitors transcribe the property from GHOST bookkeeping — the governance parameters the harness itself sent
+//!   (`mkfactory` + every accepted `params` update, applied with set semantics), and for every minter it created: factory, code,
+//!   token count, creator named in the request, payer, last accepted per-address limit. The factory's `Params` query and the
+//!   minter's `Config` are only observed (compared with the model), never used as the truth a monitor checks against;
+//! * output lines are projected: `primary ## drift`. Primary = accept/reject, the registry facts (code, instantiator, wasm admin),
+//!   minter `factory, admin, sg721, sg721 code, num_tokens, per_address_limit`, collection `owner(minter), creator`, payer / factory /
+//!   DAO balances and `net = native supply − fair-burn pool` (moves by exactly the fee whatever the burn/pool split is), the
+//!   governance parameters with the allow-list as a SET. Drift = start/end/price/whitelist/payment address, trading time, royalty,
+//!   pool and supply separately (the split belongs to C06), the raw allow-list (order/duplicates belong to C18);
+//! * model ids of contracts come from the harness' own table (k-th contract it saw created = 1000+k), not from
+//!   cw-multi-test's `contract{k}` naming; new addresses come from the `instantiate` events with a naming fallback;
+//! * the message surface of the eleven minters and four factories is enumerated at RUN TIME from the crates' JSON schemas; every
+//!   variant other than `update_per_address_limit` / `create_minter` is sent (raw JSON, minimal arguments) under the monitors
+//!   "the per-address limit changed outside UpdatePerAddressLimit" / "a contract was created outside CreateMinter".
+#![allow(dead_code)]
 use lp_harness::minters::*;
 use lp_harness::world::{addr, addr_id, denom, denom_id};
 use lp_harness::*;
-use serde_json::{json, Value};
-use std::collections::BTreeMap;
+use serde_json::{json, Map, Value};
+use std::collections::{BTreeMap, BTreeSet};
 
 const BAD_ADDR: &str = "BAD ADDR";
 const BAD_URL: &str = "not a url";
@@ -31,11 +48,11 @@ impl AF {
             Some(v) => v.parse().map(AF::Id).unwrap_or(AF::Bad),
         }
     }
-    fn json(self) -> Value {
+    fn json(self, a: &dyn Fn(u64) -> String) -> Value {
         match self {
             AF::Absent => Value::Null,
             AF::Bad => Value::String(BAD_ADDR.into()),
-            AF::Id(i) => Value::String(addr(i)),
+            AF::Id(i) => Value::String(a(i)),
         }
     }
     fn s(self) -> String {
@@ -71,6 +88,9 @@ fn fk_name(k: FactoryKind) -> &'static str {
         FactoryKind::Base => "base-factory",
     }
 }
+fn minter_name(code: u64) -> &'static str {
+    ALL_MINTERS.get((code as usize).wrapping_sub(1)).map(|k| k.name()).unwrap_or("minter")
+}
 fn kv_coin(line: &str, key: &str) -> Option<(u64, u128)> {
     let v = kv(line, key)?;
     let (a, b) = v.split_once(':')?;
@@ -104,12 +124,6 @@ fn jcoin_v(v: &Value) -> (u64, u128) {
         (denom_id(v["denom"].as_str().unwrap_or("")), v["amount"].as_str().and_then(|x| x.parse().ok()).unwrap_or(0))
     }
 }
-fn jaddr(v: &Value) -> String {
-    match v.as_str() {
-        Some(s) => addr_id(s).to_string(),
-        None => "-".into(),
-    }
-}
 fn jnum(v: &Value) -> String {
     if let Some(n) = v.as_u64() {
         n.to_string()
@@ -127,8 +141,13 @@ fn ceil3pct(n: u64) -> u64 {
 fn enforces_3pct(code: u64) -> bool {
     matches!(code, 1 | 2 | 5 | 6 | 10)
 }
+fn sorted_set(xs: &[u64]) -> Vec<u64> {
+    let s: BTreeSet<u64> = xs.iter().copied().collect();
+    s.into_iter().collect()
+}
 
-/// governance parameters as read back from the REAL factory
+/// governance parameters of a factory. Used both for what the REAL factory answers (`read_params`, observation only) and for the
+/// harness' own GHOST copy (what it sent; the truth the monitors and generators use).
 #[derive(Clone, Debug)]
 struct P {
     kind: FactoryKind,
@@ -143,6 +162,7 @@ struct P {
     airp: (u64, u128),
 }
 impl P {
+    /// fields of an input line (`mkfactory`), raw allow-list
     fn obs(&self) -> String {
         format!(
             "code={} allowed={} frozen={} fee={} minp={} off={} maxtok={} maxper={} airp={}",
@@ -157,53 +177,308 @@ impl P {
             coin_s(self.airp)
         )
     }
+    /// output: the allow-list as a set in the primary part, the stored list behind ` ## ` (order / duplicates: C18)
+    fn out(&self) -> (String, String) {
+        let mut q = self.clone();
+        q.allowed = sorted_set(&self.allowed);
+        (q.obs(), format!("allowedraw={}", fmt_list(&self.allowed)))
+    }
+    /// what C08 needs to be equal between ghost and query
+    fn same_as(&self, o: &P) -> bool {
+        self.code == o.code
+            && sorted_set(&self.allowed) == sorted_set(&o.allowed)
+            && self.frozen == o.frozen
+            && self.fee == o.fee
+            && (self.kind == FactoryKind::TokenMerge || self.minp == o.minp)
+            && self.off == o.off
+            && (self.kind == FactoryKind::Base || (self.maxtok == o.maxtok && self.maxper == o.maxper && self.airp == o.airp))
+    }
 }
 
 type Balances = BTreeMap<(String, String), u128>;
 
+// ------------------------------------------------------------------------------------------------ run-time message surface (JSON schemas of the crates)
+
+fn minter_schema(code: u64) -> Value {
+    use cosmwasm_schema::schema_for;
+    let r = match code {
+        1 => schema_for!(vending_minter::msg::ExecuteMsg),
+        2 => schema_for!(vending_minter_featured::msg::ExecuteMsg),
+        3 => schema_for!(vending_minter_wl_flex::msg::ExecuteMsg),
+        4 => schema_for!(vending_minter_wl_flex_featured::msg::ExecuteMsg),
+        5 => schema_for!(vending_minter_merkle_wl::msg::ExecuteMsg),
+        6 => schema_for!(vending_minter_merkle_wl_featured::msg::ExecuteMsg),
+        7 => schema_for!(open_edition_minter::msg::ExecuteMsg),
+        8 => schema_for!(open_edition_minter_wl_flex::msg::ExecuteMsg),
+        9 => schema_for!(open_edition_minter_merkle_wl::msg::ExecuteMsg),
+        10 => schema_for!(token_merge_minter::msg::ExecuteMsg),
+        _ => schema_for!(base_minter::msg::ExecuteMsg),
+    };
+    serde_json::to_value(&r).expect("schema to json")
+}
+fn factory_schema(kind: FactoryKind) -> Value {
+    use cosmwasm_schema::schema_for;
+    let r = match kind {
+        FactoryKind::Vending => schema_for!(vending_factory::msg::ExecuteMsg),
+        FactoryKind::OpenEdition => schema_for!(open_edition_factory::msg::ExecuteMsg),
+        FactoryKind::TokenMerge => schema_for!(token_merge_factory::msg::ExecuteMsg),
+        FactoryKind::Base => schema_for!(base_factory::msg::ExecuteMsg),
+    };
+    serde_json::to_value(&r).expect("schema to json")
+}
+
+/// (variant name in snake case, schema of its payload; None for a unit variant serialised as a bare string)
+fn schema_variants(root: &Value) -> Vec<(String, Option<Value>)> {
+    let mut out = vec![];
+    let mut alts: Vec<Value> = vec![];
+    for k in ["oneOf", "anyOf"] {
+        if let Some(a) = root[k].as_array() {
+            alts.extend(a.iter().cloned());
+        }
+    }
+    if alts.is_empty() {
+        alts.push(root.clone());
+    }
+    for alt in alts {
+        if let Some(en) = alt["enum"].as_array() {
+            for e in en {
+                if let Some(s) = e.as_str() {
+                    out.push((s.to_string(), None));
+                }
+            }
+        } else if let Some(req) = alt["required"].as_array() {
+            if let Some(name) = req.first().and_then(|x| x.as_str()) {
+                out.push((name.to_string(), Some(alt["properties"][name].clone())));
+            }
+        }
+    }
+    out.sort_by(|a, b| a.0.cmp(&b.0));
+    out.dedup_by(|a, b| a.0 == b.0);
+    out
+}
+
+/// minimal JSON value for a schema: integers = 0, strings = "0" (an account address when the field name looks like one), options = null
+fn fill(s: &Value, defs: &Value, hint: &str, depth: u32) -> Value {
+    if depth > 8 {
+        return Value::Null;
+    }
+    if let Some(r) = s["$ref"].as_str() {
+        let name = r.rsplit('/').next().unwrap_or("");
+        return fill(&defs[name], defs, hint, depth + 1);
+    }
+    if let Some(a) = s["allOf"].as_array() {
+        if let Some(f) = a.first() {
+            return fill(f, defs, hint, depth + 1);
+        }
+    }
+    for key in ["anyOf", "oneOf"] {
+        if let Some(a) = s[key].as_array() {
+            if a.iter().any(|x| x["type"] == "null") {
+                return Value::Null;
+            }
+            if let Some(f) = a.first() {
+                if let Some(req) = f["required"].as_array().and_then(|r| r.first()).and_then(|x| x.as_str()) {
+                    let mut m = Map::new();
+                    m.insert(req.to_string(), fill(&f["properties"][req], defs, req, depth + 1));
+                    return Value::Object(m);
+                }
+                return fill(f, defs, hint, depth + 1);
+            }
+        }
+    }
+    if let Some(en) = s["enum"].as_array() {
+        return en.first().cloned().unwrap_or(Value::Null);
+    }
+    let ty: String = match &s["type"] {
+        Value::String(t) => t.clone(),
+        Value::Array(ts) => {
+            if ts.iter().any(|t| t == "null") {
+                return Value::Null;
+            }
+            ts.first().and_then(|t| t.as_str()).unwrap_or("").to_string()
+        }
+        _ => String::new(),
+    };
+    match ty.as_str() {
+        "integer" | "number" => json!(0),
+        "string" => {
+            let h = hint.to_lowercase();
+            if ["addr", "recipient", "whitelist", "contract", "owner", "sender", "admin"].iter().any(|w| h.contains(w)) {
+                json!(addr(20))
+            } else {
+                json!("0")
+            }
+        }
+        "boolean" => json!(false),
+        "array" => json!([]),
+        "object" => {
+            let mut m = Map::new();
+            if let Some(req) = s["required"].as_array() {
+                for r in req.iter().filter_map(|x| x.as_str()) {
+                    m.insert(r.to_string(), fill(&s["properties"][r], defs, r, depth + 1));
+                }
+            }
+            Value::Object(m)
+        }
+        _ => Value::Null,
+    }
+}
+
+/// every variant of a schema with a minimal raw message for it
+fn surface_of(root: &Value) -> Vec<(String, Value)> {
+    let defs = &root["definitions"];
+    schema_variants(root)
+        .into_iter()
+        .map(|(n, sch)| {
+            let msg = match sch {
+                None => Value::String(n.clone()),
+                Some(s) => {
+                    let mut m = Map::new();
+                    m.insert(n.clone(), fill(&s, defs, &n, 0));
+                    Value::Object(m)
+                }
+            };
+            (n, msg)
+        })
+        .collect()
+}
+
+struct Surface {
+    minter: BTreeMap<u64, Vec<(String, Value)>>,
+    factory: BTreeMap<u64, Vec<(String, Value)>>, // by fk_idx
+}
+impl Surface {
+    fn new() -> Surface {
+        let mut minter = BTreeMap::new();
+        for code in 1..=11u64 {
+            minter.insert(code, surface_of(&minter_schema(code)));
+        }
+        let mut factory = BTreeMap::new();
+        for k in [FactoryKind::Vending, FactoryKind::OpenEdition, FactoryKind::TokenMerge, FactoryKind::Base] {
+            factory.insert(fk_idx(k), surface_of(&factory_schema(k)));
+        }
+        Surface { minter, factory }
+    }
+}
+
 // ------------------------------------------------------------------------------------------------ the SUT
+
+/// GHOST record of a minter the harness created: everything here is what the harness SENT (or was told by the registry at
+/// creation), never read back from the minter under test
+#[derive(Clone, Debug)]
+struct GM {
+    addr: String,
+    f: u64,
+    code: u64,
+    n: Option<u64>,
+    /// last per-address limit an accepted create / update carried
+    per: u64,
+    /// creator named in the request
+    creator: String,
+    /// payer (sender of CreateMinter)
+    sender: String,
+    start: u64,
+}
+
+/// collects the first violated predicate of one op
+struct Mon {
+    prefix: String,
+    ctx: String,
+    viol: Option<(String, String)>,
+}
+impl Mon {
+    fn bad(&mut self, pred: &str, what: String) {
+        if self.viol.is_none() {
+            self.viol = Some((format!("{}/{}", self.prefix, pred), format!("{what} — {}", self.ctx)));
+        }
+    }
+}
 
 struct S {
     w: World,
     log: Vec<String>,
     fkind: BTreeMap<u64, FactoryKind>,
-    ncontracts: u64,
+    /// the harness' own contract table: the k-th contract it saw created has model id 1000+k
+    ids: Vec<String>,
+    /// ghost governance parameters by factory id
+    gf: BTreeMap<u64, P>,
+    /// ghost minters by minter id
+    gm: BTreeMap<u64, GM>,
     viol: Option<(String, String)>,
     panics: u64,
+    /// header flag `literal=1`: monitor the LITERAL reading "administered by the creator" also for the wasm (migration) admin
+    literal: bool,
+    /// header flag `usable=1`: monitor (outside the property) that a created minter can mint
+    usable: bool,
+    ghost_query_diffs: u64,
+    surface: Surface,
+    dao: String,
 }
 
 impl S {
     fn new() -> S {
-        S { w: World::new(0), log: vec![], fkind: BTreeMap::new(), ncontracts: 0, viol: None, panics: 0 }
+        S {
+            w: World::new(0),
+            log: vec![],
+            fkind: BTreeMap::new(),
+            ids: vec![],
+            gf: BTreeMap::new(),
+            gm: BTreeMap::new(),
+            viol: None,
+            panics: 0,
+            literal: false,
+            usable: false,
+            ghost_query_diffs: 0,
+            surface: Surface::new(),
+            dao: addr(2),
+        }
     }
     fn reset(&mut self) {
         self.w = World::new(0);
         self.log.clear();
         self.fkind.clear();
-        self.ncontracts = 0;
+        self.ids.clear();
+        self.gf.clear();
+        self.gm.clear();
         self.viol = None;
+    }
+    /// model id -> real address (contracts through the harness' own table)
+    fn a(&self, id: u64) -> String {
+        if id >= 1000 {
+            if let Some(s) = self.ids.get((id - 1000) as usize) {
+                return s.clone();
+            }
+        }
+        addr(id)
+    }
+    /// real address -> model id
+    fn id_of(&self, s: &str) -> u64 {
+        if let Some(k) = self.ids.iter().position(|x| x == s) {
+            return 1000 + k as u64;
+        }
+        if let Some(k) = s.strip_prefix("acct") {
+            if let Ok(k) = k.parse::<u64>() {
+                return k;
+            }
+        }
+        addr_id(s)
+    }
+    fn jaddr(&self, v: &Value) -> String {
+        match v.as_str() {
+            Some(s) => self.id_of(s).to_string(),
+            None => "-".into(),
+        }
+    }
+    fn ghost(&self, f: u64) -> P {
+        self.gf.get(&f).cloned().expect("ghost params of a factory the harness created")
+    }
+    /// does cw-multi-test still name the k-th contract `contract{k}`? (only used for tripwires that can never false-alarm)
+    fn numbering_holds(&self) -> bool {
+        self.ids.iter().enumerate().all(|(k, s)| *s == format!("contract{k}"))
     }
     /// every (account, denom) balance in the bank module (cw-multi-test 1.2 has no supply query)
     fn balances(&self) -> Balances {
-        self.w.app.read_module(|_r, _a, st| {
-            let mut pre: Vec<u8> = vec![0, 4];
-            pre.extend_from_slice(b"bank");
-            pre.extend_from_slice(&[0, 8]);
-            pre.extend_from_slice(b"balances");
-            let mut end = pre.clone();
-            *end.last_mut().unwrap() += 1;
-            let mut out = Balances::new();
-            for (k, v) in st.range(Some(&pre), Some(&end), cosmwasm_std::Order::Ascending) {
-                let who = String::from_utf8_lossy(&k[pre.len()..]).to_string();
-                let coins: Vec<cosmwasm_std::Coin> = serde_json::from_slice(&v).unwrap_or_default();
-                for c in coins {
-                    if !c.amount.is_zero() {
-                        out.insert((who.clone(), c.denom.clone()), c.amount.u128());
-                    }
-                }
-            }
-            out
-        })
+        self.w.all_balances()
     }
     fn supply_of(b: &Balances, d: &str) -> u128 {
         b.iter().filter(|((_, dd), _)| dd == d).map(|(_, a)| *a).sum()
@@ -213,18 +488,6 @@ impl S {
     }
     fn exists(&self, a: &str) -> bool {
         self.w.app.wrap().query_wasm_contract_info(a).is_ok()
-    }
-    fn recount(&mut self) -> u64 {
-        // contracts are named contract{k} in instantiation order; a rolled-back transaction gives its numbers back
-        let mut k = self.ncontracts;
-        while k > 0 && !self.exists(&format!("contract{}", k - 1)) {
-            k -= 1;
-        }
-        while self.exists(&format!("contract{}", k)) {
-            k += 1;
-        }
-        self.ncontracts = k;
-        k
     }
     fn read_params(&self, f: &str, kind: FactoryKind) -> Option<P> {
         let v = self.w.query(f, &json!({"params":{}})).ok()?;
@@ -243,65 +506,63 @@ impl S {
             airp: jcoin_v(&ext["airdrop_mint_price"]),
         })
     }
-    fn bank_obs(&mut self, f: &str, sender: &str, fd: u64) -> String {
+    /// (primary, drift). primary: payer / factory / DAO balances and `net` = native supply − fair-burn pool, which a native
+    /// creation fee lowers by exactly the fee whatever the burn/pool split; drift: pool and supply separately (the split is C06's)
+    fn bank_obs(&self, f: &str, sender: &str, fd: u64) -> (String, String) {
         let b = self.balances();
         let fds = denom(fd);
         let nat = denom(0);
-        let dao = addr(2);
-        let n = self.recount();
-        format!(
-            "bal={},{},{},{},{},{},{} sup={},{} next={}",
-            S::bal_of(&b, sender, &fds),
-            S::bal_of(&b, sender, &nat),
-            S::bal_of(&b, f, &fds),
-            S::bal_of(&b, f, &nat),
-            S::bal_of(&b, POOL, &nat),
-            S::bal_of(&b, &dao, &fds),
-            S::bal_of(&b, &dao, &nat),
-            S::supply_of(&b, &nat),
-            S::supply_of(&b, &fds),
-            n
+        let pool = S::bal_of(&b, POOL, &nat);
+        let sup = S::supply_of(&b, &nat);
+        (
+            format!(
+                "bal={},{},{},{},{},{} net={} supfd={} next={}",
+                S::bal_of(&b, sender, &fds),
+                S::bal_of(&b, sender, &nat),
+                S::bal_of(&b, f, &fds),
+                S::bal_of(&b, f, &nat),
+                S::bal_of(&b, &self.dao, &fds),
+                S::bal_of(&b, &self.dao, &nat),
+                sup - pool,
+                if fd == 0 { "-".to_string() } else { S::supply_of(&b, &fds).to_string() },
+                self.ids.len()
+            ),
+            format!("pool={pool} sup={sup}"),
         )
     }
     fn info_obs(&self, a: &str) -> String {
         match self.w.app.wrap().query_wasm_contract_info(a) {
-            Ok(i) => format!("{}:{}:{}", i.code_id, addr_id(&i.creator), i.admin.map(|x| addr_id(&x).to_string()).unwrap_or("-".into())),
+            Ok(i) => format!("{}:{}:{}", i.code_id, self.id_of(&i.creator), i.admin.map(|x| self.id_of(&x).to_string()).unwrap_or("-".into())),
             Err(_) => "-".into(),
         }
     }
-    /// factory,admin,sg721,sg721code,n,per,start,end,price,wl,pay
-    fn minter_obs(&self, m: &str) -> String {
-        let Ok(v) = self.w.query(m, &json!({"config":{}})) else { return "-".into() };
+    /// primary: factory,admin,sg721,sg721code,n,per — drift: start,end,price,wl,pay
+    fn minter_obs(&self, m: &str) -> (String, String) {
+        let Ok(v) = self.w.query(m, &json!({"config":{}})) else { return ("-".into(), "-".into()) };
         let inner = if v.get("config").is_some() { v["config"].clone() } else { v.clone() };
         let sg = if v.get("sg721_address").is_some() { &v["sg721_address"] } else { &v["collection_address"] };
         let code = if v.get("sg721_code_id").is_some() { &v["sg721_code_id"] } else { &inner["collection_code_id"] };
         let price = if inner["mint_price"].is_object() { coin_s(jcoin_v(&inner["mint_price"])) } else { "-".into() };
-        format!(
-            "{},{},{},{},{},{},{},{},{},{},{}",
-            jaddr(&inner["factory"]),
-            jaddr(&v["admin"]),
-            jaddr(sg),
-            jnum(code),
-            jnum(&v["num_tokens"]),
-            jnum(&v["per_address_limit"]),
-            jnum(&v["start_time"]),
-            jnum(&v["end_time"]),
-            price,
-            jaddr(&v["whitelist"]),
-            jaddr(&v["payment_address"])
+        (
+            format!("{},{},{},{},{},{}", self.jaddr(&inner["factory"]), self.jaddr(&v["admin"]), self.jaddr(sg), jnum(code), jnum(&v["num_tokens"]), jnum(&v["per_address_limit"])),
+            format!("{},{},{},{},{}", jnum(&v["start_time"]), jnum(&v["end_time"]), price, self.jaddr(&v["whitelist"]), self.jaddr(&v["payment_address"])),
         )
     }
-    /// owner,creator,trade,royshare,roypay
-    fn coll_obs(&self, c: &str) -> String {
+    /// primary: owner,creator — drift: trade,royshare,roypay
+    fn coll_obs(&self, c: &str) -> (String, String) {
         // sg721-updatable has no `Ownership` query; `Minter` (= the cw-ownable owner) exists on all four collections
         let own = self.w.query(c, &json!({"minter":{}})).unwrap_or(Value::Null);
-        let Ok(ci) = self.w.query(c, &json!({"collection_info":{}})) else { return "-".into() };
+        let Ok(ci) = self.w.query(c, &json!({"collection_info":{}})) else { return ("-".into(), "-".into()) };
         let (rs, rp) = if ci["royalty_info"].is_object() {
-            (dec_atomics(ci["royalty_info"]["share"].as_str().unwrap_or("0")).to_string(), jaddr(&ci["royalty_info"]["payment_address"]))
+            (dec_atomics(ci["royalty_info"]["share"].as_str().unwrap_or("0")).to_string(), self.jaddr(&ci["royalty_info"]["payment_address"]))
         } else {
             ("-".into(), "-".into())
         };
-        format!("{},{},{},{},{}", jaddr(&own["minter"]), jaddr(&ci["creator"]), jnum(&ci["start_trading_time"]), rs, rp)
+        (format!("{},{}", self.jaddr(&own["minter"]), self.jaddr(&ci["creator"])), format!("{},{},{}", jnum(&ci["start_trading_time"]), rs, rp))
+    }
+    fn per_of(&self, m: &str) -> String {
+        let cfg = self.w.query(m, &json!({"config":{}})).unwrap_or(Value::Null);
+        jnum(&cfg["per_address_limit"])
     }
 
     fn rebuild(&mut self) {
@@ -316,9 +577,10 @@ impl S {
         self.viol = None;
     }
 
-    fn create_json(kind: FactoryKind, line: &str) -> Value {
+    fn create_json(&self, kind: FactoryKind, line: &str) -> Value {
+        let a = |i: u64| self.a(i);
         let creator = match AF::parse(line, "creator") {
-            AF::Id(i) => addr(i),
+            AF::Id(i) => a(i),
             _ => BAD_ADDR.to_string(),
         };
         let url = |ok: bool, good: &str| if ok { good.to_string() } else { BAD_URL.to_string() };
@@ -328,7 +590,7 @@ impl S {
             _ => Value::Null,
         };
         let roy = match kv_opt_u128(line, "roys").flatten() {
-            Some(s) => json!({"payment_address": match AF::parse(line, "royp") { AF::Id(i) => addr(i), _ => BAD_ADDR.to_string() }, "share": dec_str(s)}),
+            Some(s) => json!({"payment_address": match AF::parse(line, "royp") { AF::Id(i) => a(i), _ => BAD_ADDR.to_string() }, "share": dec_str(s)}),
             None => Value::Null,
         };
         let cp = json!({
@@ -348,9 +610,9 @@ impl S {
         let uri_ok = kv_bool(line, "uri").unwrap_or(true);
         let init = match kind {
             FactoryKind::Vending => json!({
-                "base_token_uri": url(uri_ok, GOOD_URI), "payment_address": AF::parse(line, "pay").json(),
+                "base_token_uri": url(uri_ok, GOOD_URI), "payment_address": AF::parse(line, "pay").json(&a),
                 "start_time": jtime(start), "num_tokens": n.unwrap_or(0), "mint_price": jcoin(price),
-                "per_address_limit": per, "whitelist": AF::parse(line, "wl").json()}),
+                "per_address_limit": per, "whitelist": AF::parse(line, "wl").json(&a)}),
             FactoryKind::OpenEdition => {
                 let nft_ok = kv_bool(line, "nft").unwrap_or(true);
                 let token_uri = if nft_ok { Value::String(url(uri_ok, "ipfs://bafybeigi3bwpvyvsmnbj46ra4hyffcxdeaj6ntfk5jpic5mx27x6ih2qvq/1.json")) } else { Value::Null };
@@ -358,11 +620,11 @@ impl S {
                     "nft_data": {"nft_data_type": "off_chain_metadata", "extension": null, "token_uri": token_uri},
                     "start_time": jtime(start), "end_time": jopt_time(kv_opt_u64(line, "end").flatten()), "mint_price": jcoin(price),
                     "per_address_limit": per, "num_tokens": n,
-                    "payment_address": AF::parse(line, "pay").json(), "whitelist": AF::parse(line, "wl").json()})
+                    "payment_address": AF::parse(line, "pay").json(&a), "whitelist": AF::parse(line, "wl").json(&a)})
             }
             FactoryKind::TokenMerge => json!({
                 "base_token_uri": url(uri_ok, GOOD_URI), "start_time": jtime(start), "num_tokens": n.unwrap_or(0),
-                "mint_tokens": [{"collection": addr(1000), "amount": 1}], "per_address_limit": per}),
+                "mint_tokens": [{"collection": a(1000), "amount": 1}], "per_address_limit": per}),
             FactoryKind::Base => Value::Null,
         };
         json!({"create_minter": {"init_msg": init, "collection_params": cp}})
@@ -401,6 +663,67 @@ impl S {
         json!({"update_params": m})
     }
 
+    /// GHOST: what an accepted `UpdateParams` the harness sent means for the parameters C08 speaks about. Scalars: the value
+    /// sent; allow-list: set union / difference (membership is all C08 needs; order and duplicates are C18's).
+    fn ghost_apply(g: &mut P, line: &str) {
+        if let Some(c) = kv_opt_u64(line, "code").flatten() {
+            g.code = c;
+        }
+        match kv(line, "frozen") {
+            Some("1") => g.frozen = true,
+            Some("0") => g.frozen = false,
+            _ => {}
+        }
+        if let Some(c) = kv_opt_coin(line, "fee") {
+            g.fee = c;
+        }
+        if let Some(o) = kv_opt_u64(line, "off").flatten() {
+            g.off = o;
+        }
+        if g.kind != FactoryKind::TokenMerge {
+            if let Some(c) = kv_opt_coin(line, "minp") {
+                g.minp = c;
+            }
+        }
+        if !matches!(kv(line, "add"), Some("x") | None) {
+            for c in kv_list(line, "add").unwrap_or_default() {
+                if !g.allowed.contains(&(c as u64)) {
+                    g.allowed.push(c as u64);
+                }
+            }
+        }
+        if !matches!(kv(line, "rm"), Some("x") | None) {
+            let rm: Vec<u64> = kv_list(line, "rm").unwrap_or_default().iter().map(|x| *x as u64).collect();
+            g.allowed.retain(|c| !rm.contains(c));
+        }
+        if g.kind != FactoryKind::Base {
+            if let Some(x) = kv_opt_u64(line, "maxtok").flatten() {
+                g.maxtok = x;
+            }
+            if let Some(x) = kv_opt_u64(line, "maxper").flatten() {
+                g.maxper = x;
+            }
+            if let Some(c) = kv_opt_coin(line, "airp") {
+                g.airp = c;
+            }
+        }
+    }
+
+    fn params_out(&mut self, f: u64, fa: &str, kind: FactoryKind) -> String {
+        match self.read_params(fa, kind) {
+            Some(q) => {
+                if let Some(g) = self.gf.get(&f) {
+                    if !g.same_as(&q) {
+                        self.ghost_query_diffs += 1;
+                    }
+                }
+                let (p, d) = q.out();
+                format!("{p} ## {d}")
+            }
+            None => "-".into(),
+        }
+    }
+
     /// returns (model line, output); sets `self.viol` when the PROPERTY is violated on the real code
     fn exec_inner(&mut self, line: &str) -> (String, String) {
         let op = line.split_whitespace().next().unwrap_or("");
@@ -410,32 +733,46 @@ impl S {
                 (line.to_string(), "ok".into())
             }
             "fund" => {
-                self.w.fund(&addr(kv_u64(line, "who").unwrap()), kv_u64(line, "denom").unwrap(), kv_u128(line, "amt").unwrap());
+                let who = self.a(kv_u64(line, "who").unwrap());
+                self.w.fund(&who, kv_u64(line, "denom").unwrap(), kv_u128(line, "amt").unwrap());
                 (line.to_string(), "ok".into())
             }
             "mkfactory" => {
                 let kind = fk_of(kv_u64(line, "kind").unwrap());
-                let p = FactoryParams {
-                    code_id: kv_u64(line, "code").unwrap(),
-                    allowed_sg721_code_ids: kv_list(line, "allowed").unwrap().iter().map(|x| *x as u64).collect(),
+                let g = P {
+                    kind,
+                    code: kv_u64(line, "code").unwrap(),
+                    allowed: kv_list(line, "allowed").unwrap().iter().map(|x| *x as u64).collect(),
                     frozen: kv_bool(line, "frozen").unwrap(),
-                    creation_fee: kv_coin(line, "fee").unwrap(),
-                    min_mint_price: kv_coin(line, "minp").unwrap(),
+                    fee: kv_coin(line, "fee").unwrap(),
+                    minp: kv_coin(line, "minp").unwrap(),
+                    off: kv_u64(line, "off").unwrap(),
+                    maxtok: kv_u64(line, "maxtok").unwrap(),
+                    maxper: kv_u64(line, "maxper").unwrap(),
+                    airp: kv_coin(line, "airp").unwrap(),
+                };
+                let p = FactoryParams {
+                    code_id: g.code,
+                    allowed_sg721_code_ids: g.allowed.clone(),
+                    frozen: g.frozen,
+                    creation_fee: g.fee,
+                    min_mint_price: g.minp,
                     mint_fee_bps: 1000,
-                    max_trading_offset_secs: kv_u64(line, "off").unwrap(),
-                    max_token_limit: kv_u64(line, "maxtok").unwrap() as u32,
-                    max_per_address_limit: kv_u64(line, "maxper").unwrap() as u32,
-                    airdrop_mint_price: kv_coin(line, "airp").unwrap(),
+                    max_trading_offset_secs: g.off,
+                    max_token_limit: g.maxtok as u32,
+                    max_per_address_limit: g.maxper as u32,
+                    airdrop_mint_price: g.airp,
                     airdrop_mint_fee_bps: 10_000,
                     shuffle_fee: (0, 500_000_000),
                     dev_fee_address: 60,
                 };
                 match self.w.new_factory(kind, &p) {
                     Ok(f) => {
-                        let id = addr_id(&f);
+                        self.ids.push(f.clone());
+                        let id = self.id_of(&f);
                         self.fkind.insert(id, kind);
-                        self.recount();
-                        let obs = self.read_params(&f, kind).map(|p| p.obs()).unwrap_or("-".into());
+                        self.gf.insert(id, g);
+                        let obs = self.params_out(id, &f, kind);
                         (line.to_string(), format!("ok f={} {}", id, obs))
                     }
                     Err(_) => (line.to_string(), "err".into()),
@@ -444,9 +781,14 @@ impl S {
             "params" => {
                 let f = kv_u64(line, "f").unwrap();
                 let Some(kind) = self.fkind.get(&f).copied() else { return (line.to_string(), "err -".into()) };
-                let fa = addr(f);
+                let fa = self.a(f);
                 let r = self.w.sudo(&fa, &S::update_json(kind, line));
-                let obs = self.read_params(&fa, kind).map(|p| p.obs()).unwrap_or("-".into());
+                if r.is_ok() {
+                    if let Some(g) = self.gf.get_mut(&f) {
+                        S::ghost_apply(g, line);
+                    }
+                }
+                let obs = self.params_out(f, &fa, kind);
                 (line.to_string(), format!("{} {}", if r.is_ok() { "ok" } else { "err" }, obs))
             }
             "mkwl" => {
@@ -465,22 +807,114 @@ impl S {
                 let b1 = self.balances();
                 let poold = S::bal_of(&b1, POOL, &nat) - S::bal_of(&b0, POOL, &nat);
                 let supd = S::supply_of(&b1, &nat).saturating_sub(S::supply_of(&b0, &nat));
-                self.recount();
                 let base = line.split(" ok=").next().unwrap().to_string();
                 match r {
-                    Ok(wl) => (format!("{base} ok=1 poold={poold} supd={supd}"), format!("ok wl={}", addr_id(&wl))),
+                    Ok(wl) => {
+                        self.ids.push(wl.clone());
+                        (format!("{base} ok=1 poold={poold} supd={supd}"), format!("ok wl={}", self.id_of(&wl)))
+                    }
                     Err(_) => (format!("{base} ok=0 poold=0 supd=0"), "err".into()),
                 }
             }
             "create" => self.do_create(line),
             "setlimit" => self.do_setlimit(line),
+            "probe" => self.do_probe(line),
+            "migrate" => self.do_migrate(line),
             _ => (line.to_string(), "bad-op".into()),
         }
     }
 
+    /// `migrate m=<a> sender=<a>`: wasm-level migration of a created contract to its own code id, by `sender`
+    fn do_migrate(&mut self, line: &str) -> (String, String) {
+        let mid = kv_u64(line, "m").unwrap();
+        let m = self.a(mid);
+        let sender = self.a(kv_u64(line, "sender").unwrap());
+        let code = self.w.app.wrap().query_wasm_contract_info(&m).map(|i| i.code_id).unwrap_or(0);
+        let r = self.w.migrate(&sender, &m, code, &json!({}));
+        if let Err(e) = &r {
+            if e.starts_with("panic") {
+                self.rebuild();
+            }
+        }
+        if let (Ok(_), Some(g)) = (&r, self.gm.get(&mid)) {
+            if self.literal && sender != g.creator {
+                let f = g.f;
+                let kind = self.fkind.get(&f).copied().unwrap_or(FactoryKind::Base);
+                self.viol = Some((
+                    format!("{}/create_minter/minter-migrated-by-non-creator", fk_name(kind)),
+                    format!("LITERAL reading of 'administered by the creator named in the request': the minter {m} created for creator {} was migrated by {sender} (the payer of CreateMinter, its wasm admin) (`{line}`)", g.creator),
+                ));
+            }
+        }
+        // who may migrate is decided by the chain (wasm admin), whether the crate's `migrate` accepts is the crate's business: both
+        // sides print the wasm admin check in the primary part, the outcome is an observation
+        let admin_ok = self.w.app.wrap().query_wasm_contract_info(&m).ok().and_then(|i| i.admin).map(|x| x == sender).unwrap_or(false);
+        (line.to_string(), format!("admin={} ## {}", admin_ok as u8, if r.is_ok() { "ok" } else { "err" }))
+    }
+
+    /// `probe m=<contract> sender=<a> variant=<name> [funds=<d:a>]`: a message variant found in the crate's schema, sent as raw JSON
+    fn do_probe(&mut self, line: &str) -> (String, String) {
+        let mid = kv_u64(line, "m").unwrap();
+        let m = self.a(mid);
+        let sender = self.a(kv_u64(line, "sender").unwrap());
+        let variant = kv(line, "variant").unwrap_or("").to_string();
+        let funds: Vec<(u64, u128)> = kv_pairs(line, "funds").unwrap_or_default().into_iter().map(|(d, a)| (d as u64, a)).collect();
+        let g = self.gm.get(&mid).cloned();
+        let fk = self.fkind.get(&mid).copied();
+        let msg = match (&g, fk) {
+            (Some(g), _) => self.surface.minter.get(&g.code).and_then(|v| v.iter().find(|(n, _)| *n == variant)).map(|x| x.1.clone()),
+            (None, Some(k)) => self.surface.factory.get(&fk_idx(k)).and_then(|v| v.iter().find(|(n, _)| *n == variant)).map(|x| x.1.clone()),
+            _ => None,
+        }
+        .unwrap_or_else(|| {
+            let mut o = Map::new();
+            o.insert(variant.clone(), json!({}));
+            Value::Object(o)
+        });
+        let n0 = self.ids.len();
+        let r = self.w.exec(&sender, &m, &msg, &funds);
+        if let Err(e) = &r {
+            if e.starts_with("panic") {
+                self.rebuild();
+            }
+        }
+        if std::env::var("C08_VERBOSE").is_ok() {
+            eprintln!("PROBE `{line}` msg {msg} -> {:?}", r.as_ref().map(|x| x.events.len()));
+        }
+        let who = match (&g, fk) {
+            (Some(g), _) => minter_name(g.code).to_string(),
+            (None, Some(k)) => fk_name(k).to_string(),
+            _ => "contract".to_string(),
+        };
+        let mut mon = Mon { prefix: format!("{who}/{variant}"), ctx: format!("op `{line}` msg {msg}"), viol: None };
+        if let Ok(resp) = &r {
+            let created = resp.events.iter().filter(|e| e.ty == "instantiate").count();
+            if created > 0 || (self.numbering_holds() && self.exists(&format!("contract{n0}"))) {
+                mon.bad("created-contract-outside-create-minter", format!("a message other than CreateMinter instantiated {created} contract(s)"));
+            }
+        }
+        let per_now = self.per_of(&m);
+        if let Some(g) = &g {
+            if g.code != 11 && per_now != g.per.to_string() {
+                mon.bad("per-address-limit-changed-outside-update", format!("per_address_limit is {per_now}, the last accepted create/UpdatePerAddressLimit carried {}", g.per));
+            }
+            let can_pay = funds.iter().all(|(d, a)| self.w.balance(&sender, *d) >= *a) && !funds.is_empty();
+            if self.usable && variant == "mint" && r.is_err() && can_pay && self.w.time() >= g.start {
+                let kind = self.fkind.get(&g.f).copied().unwrap_or(FactoryKind::Base);
+                mon.prefix = format!("{}/create_minter", fk_name(kind));
+                mon.bad("created-minter-cannot-mint", format!("(OUTSIDE the property text) the minter {m} ({}) created through this factory rejects a fully paid public mint after its start time: {}", minter_name(g.code), r.as_ref().err().map(|e| e.rsplit(": ").take(2).collect::<Vec<_>>().into_iter().rev().collect::<Vec<_>>().join(": ")).unwrap_or_default()));
+            }
+        }
+        if self.viol.is_none() {
+            self.viol = mon.viol;
+        }
+        (line.to_string(), format!("per={} next={} ## {}", per_now, self.ids.len(), if r.is_ok() { "ok" } else { "err" }))
+    }
+
     fn do_setlimit(&mut self, line: &str) -> (String, String) {
-        let m = addr(kv_u64(line, "m").unwrap());
-        let sender = addr(kv_u64(line, "sender").unwrap());
+        let mid = kv_u64(line, "m").unwrap();
+        let m = self.a(mid);
+        let sender = self.a(kv_u64(line, "sender").unwrap());
         let funds: Vec<(u64, u128)> = kv_pairs(line, "funds").unwrap().into_iter().map(|(d, a)| (d as u64, a)).collect();
         let l = kv_u64(line, "limit").unwrap();
         let r = self.w.exec(&sender, &m, &json!({"update_per_address_limit": {"per_address_limit": l}}), &funds);
@@ -489,27 +923,36 @@ impl S {
                 self.rebuild();
             }
         }
-        let cfg = self.w.query(&m, &json!({"config":{}})).unwrap_or(Value::Null);
-        let per = jnum(&cfg["per_address_limit"]);
-        if r.is_ok() {
-            // monitor: "a later per-address-limit update on the minter is held to the same bounds"
-            let code = self.w.app.wrap().query_wasm_contract_info(&m).map(|i| i.code_id).unwrap_or(0);
-            let fac = cfg["factory"].as_str().unwrap_or("").to_string();
-            let kind = self.fkind.get(&addr_id(&fac)).copied();
-            if let Some(p) = kind.and_then(|k| self.read_params(&fac, k)) {
-                let key = |pred: &str| format!("{}/update_per_address_limit/{}", ALL_MINTERS.get((code as usize).wrapping_sub(1)).map(|k| k.name()).unwrap_or("minter"), pred);
+        let per = self.per_of(&m);
+        // monitor: "a later per-address-limit update on the minter is held to the same bounds" — against the GHOST: the factory
+        // parameters the harness sent, the token count and the creator it named when it created this minter
+        if let Some(g) = self.gm.get(&mid).cloned() {
+            let p = self.ghost(g.f);
+            let mut mon = Mon { prefix: format!("{}/update_per_address_limit", minter_name(g.code)), ctx: format!("ghost params [{}] op `{line}`", p.obs()), viol: None };
+            if r.is_ok() {
                 if l < 1 || l > p.maxper {
-                    self.viol = Some((key("outside-governance-bound"), format!("limit {l} accepted, factory max_per_address_limit {} (`{line}`)", p.maxper)));
-                } else if enforces_3pct(code) {
-                    let n = cfg["num_tokens"].as_u64().unwrap_or(0);
+                    mon.bad("outside-governance-bound", format!("limit {l} accepted, the factory's max_per_address_limit is {}", p.maxper));
+                } else if enforces_3pct(g.code) {
+                    let n = g.n.unwrap_or(0);
                     let bound = if n < 100 { 3 } else { ceil3pct(n) };
                     if l > bound {
-                        self.viol = Some((key("outside-3pct"), format!("limit {l} accepted for {n} tokens (3% bound {bound}) (`{line}`)")));
+                        mon.bad("outside-3pct", format!("limit {l} accepted for {n} tokens (3% bound {bound})"));
                     }
                 }
-                if cfg["admin"].as_str() != Some(sender.as_str()) {
-                    self.viol = Some((key("not-admin"), format!("limit updated by {sender}, admin is {} (`{line}`)", cfg["admin"])));
+                if sender != g.creator {
+                    mon.bad("not-admin", format!("limit updated by {sender}; the creator named in the request is {}", g.creator));
                 }
+                if g.code != 11 && per != l.to_string() {
+                    mon.bad("accepted-limit-not-stored", format!("update to {l} accepted, Config says {per}"));
+                }
+                if let Some(gm) = self.gm.get_mut(&mid) {
+                    gm.per = l;
+                }
+            } else if g.code != 11 && per != g.per.to_string() {
+                mon.bad("rejected-update-changed-limit", format!("update to {l} rejected, per_address_limit went {} -> {per}", g.per));
+            }
+            if self.viol.is_none() {
+                self.viol = mon.viol;
             }
         }
         (line.to_string(), format!("{} per={}", if r.is_ok() { "ok" } else { "err" }, per))
@@ -518,18 +961,20 @@ impl S {
     fn do_create(&mut self, line: &str) -> (String, String) {
         let f = kv_u64(line, "f").unwrap();
         let sender_id = kv_u64(line, "sender").unwrap();
-        let fa = addr(f);
-        let sender = addr(sender_id);
+        let fa = self.a(f);
+        let sender = self.a(sender_id);
         let funds: Vec<(u64, u128)> = kv_pairs(line, "funds").unwrap().into_iter().map(|(d, a)| (d as u64, a)).collect();
         let Some(kind) = self.fkind.get(&f).copied() else {
-            let o = self.bank_obs(&fa, &sender, 0);
-            return (line.to_string(), format!("err {o}"));
+            let (bp, bd) = self.bank_obs(&fa, &sender, 0);
+            return (line.to_string(), format!("err {bp} ## {bd}"));
         };
-        let p = self.read_params(&fa, kind).expect("factory params");
+        // GHOST parameters: what the harness itself sent to this factory (instantiate + accepted updates)
+        let p = self.ghost(f);
         let b0 = self.balances();
-        let n0 = self.recount();
+        let n0 = self.ids.len();
+        let fdump0 = self.w.dump(&fa);
         let now = self.w.time();
-        let msg = S::create_json(kind, line);
+        let msg = self.create_json(kind, line);
         let res = self.w.exec(&sender, &fa, &msg, &funds);
         if let Err(e) = &res {
             if e.starts_with("panic") {
@@ -537,45 +982,59 @@ impl S {
             }
         }
         let b1 = self.balances();
-        let n1 = self.recount();
-        let bank = self.bank_obs(&fa, &sender, p.fee.0);
-        let key = |pred: &str| format!("{}/create_minter/{}", fk_name(kind), pred);
-        let mut viol: Option<(String, String)> = None;
-        let mut bad = |pred: &str, what: String| {
-            if viol.is_none() {
-                viol = Some((key(pred), format!("{what} — params [{}] now={now} op `{line}`", p.obs())));
-            }
-        };
+        let mut mon = Mon { prefix: format!("{}/create_minter", fk_name(kind)), ctx: format!("ghost params [{}] now={now} op `{line}`", p.obs()), viol: None };
         let out = match res {
             Err(_) => {
-                // "on rejection nothing is created and no funds move"
+                // "on rejection nothing is created and no funds move" (cannot fire while the chain executes transactions
+                // atomically; kept as a tripwire for the harness / a factory that swallows a failed instantiate)
                 if b0 != b1 {
-                    bad("rejected-moved-funds", "rejected create changed bank balances".into());
+                    mon.bad("rejected-moved-funds", "rejected create changed bank balances".into());
                 }
-                if n1 != n0 {
-                    bad("rejected-created-contract", format!("rejected create changed the contract registry {n0} -> {n1}"));
+                if self.numbering_holds() && self.exists(&format!("contract{n0}")) {
+                    mon.bad("rejected-created-contract", format!("rejected create left a new contract contract{n0} in the registry"));
                 }
-                format!("err {bank}")
+                if fdump0 != self.w.dump(&fa) {
+                    mon.bad("rejected-changed-factory-state", "rejected create changed the factory's storage".into());
+                }
+                let (bp, bd) = self.bank_obs(&fa, &sender, p.fee.0);
+                format!("err {bp} ## {bd}")
             }
             Ok(r) => {
-                let addrs: Vec<String> = r.events.iter().filter(|e| e.ty == "instantiate").filter_map(|e| e.attributes.iter().find(|at| at.key == "_contract_address" || at.key == "_contract_addr").map(|at| at.value.clone())).collect();
+                let mut addrs: Vec<String> = r.events.iter().filter(|e| e.ty == "instantiate").filter_map(|e| e.attributes.iter().find(|at| at.key == "_contract_address" || at.key == "_contract_addr").map(|at| at.value.clone())).collect();
+                if addrs.is_empty() && self.numbering_holds() {
+                    // event attribute names changed: fall back to cw-multi-test's naming
+                    addrs = (0..8).map(|k| format!("contract{}", n0 + k)).take_while(|a| self.exists(a)).collect();
+                }
+                let fresh = addrs.iter().all(|a| self.exists(a) && !self.ids.contains(a)) && addrs.iter().collect::<BTreeSet<_>>().len() == addrs.len();
+                if addrs.len() != 2 || !fresh {
+                    mon.bad("not-exactly-two-contracts", format!("CreateMinter succeeded and instantiated {:?} (expected exactly one new minter and one new collection)", addrs));
+                }
                 let (m, c) = (addrs.first().cloned().unwrap_or_default(), addrs.get(1).cloned().unwrap_or_default());
+                let live: Vec<String> = addrs.iter().filter(|a| self.exists(a)).cloned().collect();
+                for a in live {
+                    if !self.ids.contains(&a) {
+                        self.ids.push(a);
+                    }
+                }
+                if self.numbering_holds() && self.exists(&format!("contract{}", self.ids.len())) {
+                    mon.bad("not-exactly-two-contracts", format!("a contract beyond the {} instantiate events exists", addrs.len()));
+                }
                 // ---- monitor: preconditions the property lists
                 if p.frozen {
-                    bad("created-while-frozen", "minter created while the factory is frozen".into());
+                    mon.bad("created-while-frozen", "minter created while the factory is frozen".into());
                 }
                 let sg721 = kv_u64(line, "sg721").unwrap_or(0);
                 if !p.allowed.contains(&sg721) {
-                    bad("disallowed-code-id", format!("collection code id {sg721} not on the allow-list"));
+                    mon.bad("disallowed-code-id", format!("collection code id {sg721} not on the allow-list"));
                 }
                 let paid = match funds.as_slice() {
                     [(d, a)] if *d == p.fee.0 => Some(*a),
                     _ => None,
                 };
                 match paid {
-                    None => bad("wrong-coins", "created without exactly one coin in the fee denom".into()),
-                    Some(a) if a < p.fee.1 => bad("underpaid", format!("paid {a} < fee {}", p.fee.1)),
-                    Some(a) if kind == FactoryKind::OpenEdition && a != p.fee.1 => bad("not-exact-fee", format!("open edition paid {a} != fee {}", p.fee.1)),
+                    None => mon.bad("wrong-coins", "created without exactly one coin in the fee denom".into()),
+                    Some(a) if a < p.fee.1 => mon.bad("underpaid", format!("paid {a} < fee {}", p.fee.1)),
+                    Some(a) if kind == FactoryKind::OpenEdition && a != p.fee.1 => mon.bad("not-exact-fee", format!("open edition paid {a} != fee {}", p.fee.1)),
                     _ => {}
                 }
                 let n = kv_opt_u64(line, "n").flatten();
@@ -587,56 +1046,53 @@ impl S {
                     FactoryKind::Vending | FactoryKind::TokenMerge => {
                         let nn = n.unwrap_or(0);
                         if nn < 1 || nn > p.maxtok {
-                            bad("token-count-out-of-bounds", format!("num_tokens {nn} not in 1..={}", p.maxtok));
+                            mon.bad("token-count-out-of-bounds", format!("num_tokens {nn} not in 1..={}", p.maxtok));
                         }
                         if per < 1 || per > p.maxper {
-                            bad("per-address-limit-out-of-bounds", format!("per_address_limit {per} not in 1..={}", p.maxper));
+                            mon.bad("per-address-limit-out-of-bounds", format!("per_address_limit {per} not in 1..={}", p.maxper));
                         }
                         if enforces_3pct(p.code) {
                             let bound = if nn < 100 { 3 } else { ceil3pct(nn) };
                             if per > bound {
-                                bad("outside-3pct", format!("per_address_limit {per} > 3% bound {bound} of {nn} tokens"));
+                                mon.bad("outside-3pct", format!("per_address_limit {per} > 3% bound {bound} of {nn} tokens"));
                             }
                         }
                         if kind == FactoryKind::Vending && (price.0 != p.minp.0 || price.1 < p.minp.1) {
-                            bad("price-below-min-or-wrong-denom", format!("mint price {} vs minimum {}", coin_s(price), coin_s(p.minp)));
+                            mon.bad("price-below-min-or-wrong-denom", format!("mint price {} vs minimum {}", coin_s(price), coin_s(p.minp)));
                         }
                     }
                     FactoryKind::OpenEdition => {
                         if let Some(nn) = n {
                             if nn < 1 || nn > p.maxtok {
-                                bad("token-count-out-of-bounds", format!("num_tokens {nn} not in 1..={}", p.maxtok));
+                                mon.bad("token-count-out-of-bounds", format!("num_tokens {nn} not in 1..={}", p.maxtok));
                             }
                         }
                         if per < 1 || per > p.maxper {
-                            bad("per-address-limit-out-of-bounds", format!("per_address_limit {per} not in 1..={}", p.maxper));
+                            mon.bad("per-address-limit-out-of-bounds", format!("per_address_limit {per} not in 1..={}", p.maxper));
                         }
                         if price.0 != p.minp.0 || price.1 < p.minp.1 {
-                            bad("price-below-min-or-wrong-denom", format!("mint price {} vs minimum {}", coin_s(price), coin_s(p.minp)));
+                            mon.bad("price-below-min-or-wrong-denom", format!("mint price {} vs minimum {}", coin_s(price), coin_s(p.minp)));
                         }
                         if start <= now {
-                            bad("start-not-in-future", format!("start {start} <= now {now}"));
+                            mon.bad("start-not-in-future", format!("start {start} <= now {now}"));
                         }
                         if let Some(e) = end {
                             if e <= start {
-                                bad("end-not-after-start", format!("end {e} <= start {start}"));
+                                mon.bad("end-not-after-start", format!("end {e} <= start {start}"));
                             }
                         }
                         if end.is_none() && n.is_none() {
-                            bad("no-end-and-no-cap", "neither end time nor token cap".into());
+                            mon.bad("no-end-and-no-cap", "neither end time nor token cap".into());
                         }
                         if price.1 == 0 && n.is_none() {
-                            bad("zero-price-without-cap", "zero mint price without a token cap".into());
+                            mon.bad("zero-price-without-cap", "zero mint price without a token cap".into());
                         }
                     }
                     FactoryKind::Base => {}
                 }
                 // ---- monitor: wiring
-                if n1 != n0 + 2 {
-                    bad("not-exactly-two-contracts", format!("registry grew {n0} -> {n1}"));
-                }
                 let creator = match AF::parse(line, "creator") {
-                    AF::Id(i) => addr(i),
+                    AF::Id(i) => self.a(i),
                     _ => String::new(),
                 };
                 let mi = self.w.app.wrap().query_wasm_contract_info(&m).ok();
@@ -651,53 +1107,59 @@ impl S {
                 match (&mi, &ci) {
                     (Some(mi), Some(ci)) => {
                         if mi.creator != fa || mi.code_id != p.code {
-                            bad("minter-not-from-this-factory", format!("minter {m}: instantiated by {} with code {}", mi.creator, mi.code_id));
+                            mon.bad("minter-not-from-this-factory", format!("minter {m}: instantiated by {} with code {}", mi.creator, mi.code_id));
                         }
                         if ci.creator != m || ci.code_id != sg721 {
-                            bad("collection-not-from-this-minter", format!("collection {c}: instantiated by {} with code {}", ci.creator, ci.code_id));
+                            mon.bad("collection-not-from-this-minter", format!("collection {c}: instantiated by {} with code {}", ci.creator, ci.code_id));
                         }
                         if ci.admin.as_deref() != Some(creator.as_str()) {
-                            bad("collection-admin-not-creator", format!("collection wasm admin {:?}, creator {creator}", ci.admin));
+                            mon.bad("collection-admin-not-creator", format!("collection wasm admin {:?}, creator {creator}", ci.admin));
                         }
                         if mi.admin.as_deref() != Some(sender.as_str()) {
-                            bad("minter-wasm-admin-not-sender", format!("minter wasm admin {:?}, sender {sender}", mi.admin));
+                            mon.bad("minter-wasm-admin-not-sender", format!("minter wasm admin {:?}, sender {sender}", mi.admin));
+                        }
+                        if self.literal && mi.admin.as_deref() != Some(creator.as_str()) {
+                            mon.bad("minter-wasm-admin-not-creator", format!("LITERAL reading of 'administered by the creator named in the request': the minter's wasm (migration) admin is {:?}, the creator named in the request is {creator}", mi.admin));
                         }
                     }
-                    _ => bad("new-contracts-missing", format!("minter `{m}` / collection `{c}` not in the registry")),
+                    _ => mon.bad("new-contracts-missing", format!("minter `{m}` / collection `{c}` not in the registry")),
                 }
                 if inner["factory"].as_str() != Some(fa.as_str()) {
-                    bad("minter-factory-link", format!("minter config factory {} != {fa}", inner["factory"]));
+                    mon.bad("minter-factory-link", format!("minter config factory {} != {fa}", inner["factory"]));
                 }
                 if sg_in_minter != c {
-                    bad("minter-collection-link", format!("minter records collection `{sg_in_minter}`, created `{c}`"));
+                    mon.bad("minter-collection-link", format!("minter records collection `{sg_in_minter}`, created `{c}`"));
                 }
                 if coll_minter != m || coll_owner != m {
-                    bad("collection-minter-link", format!("collection minter `{coll_minter}` / owner `{coll_owner}`, created minter `{m}`"));
+                    mon.bad("collection-minter-link", format!("collection minter `{coll_minter}` / owner `{coll_owner}`, created minter `{m}`"));
                 }
                 if coll_info["creator"].as_str() != Some(creator.as_str()) {
-                    bad("collection-creator", format!("collection creator {} != {creator}", coll_info["creator"]));
+                    mon.bad("collection-creator", format!("collection creator {} != {creator}", coll_info["creator"]));
                 }
                 if p.code != 11 && cfg["admin"].as_str() != Some(creator.as_str()) {
-                    bad("minter-admin-not-creator", format!("minter admin {} != creator {creator}", cfg["admin"]));
+                    mon.bad("minter-admin-not-creator", format!("minter admin {} != creator {creator}", cfg["admin"]));
+                }
+                if p.code != 11 && kind != FactoryKind::Base && jnum(&cfg["per_address_limit"]) != per.to_string() {
+                    mon.bad("stored-limit-not-requested", format!("minter stores per_address_limit {}, requested {per}", cfg["per_address_limit"]));
                 }
                 // ---- monitor: fee disposal ("never less than the fee, never more than was paid")
                 if let Some(paid) = paid {
                     let fd = denom(p.fee.0);
-                    let dao = addr(2);
+                    let dao = self.dao.clone();
                     let d = |who: &str| S::bal_of(&b1, who, &fd) as i128 - S::bal_of(&b0, who, &fd) as i128;
                     let burned = S::supply_of(&b0, &fd) as i128 - S::supply_of(&b1, &fd) as i128;
                     let disposed = burned + d(POOL) + d(&dao);
                     if disposed < p.fee.1 as i128 {
-                        bad("fee-disposed-less-than-fee", format!("burned {burned} + pool {} + dao {} = {disposed} < fee {}", d(POOL), d(&dao), p.fee.1));
+                        mon.bad("fee-disposed-less-than-fee", format!("burned {burned} + pool {} + dao {} = {disposed} < fee {}", d(POOL), d(&dao), p.fee.1));
                     }
                     if disposed > paid as i128 {
-                        bad("fee-disposed-more-than-paid", format!("disposed {disposed} > paid {paid}"));
+                        mon.bad("fee-disposed-more-than-paid", format!("disposed {disposed} > paid {paid}"));
                     }
                     if d(&sender) != -(paid as i128) {
-                        bad("payer-delta", format!("payer balance changed by {} for a payment of {paid}", d(&sender)));
+                        mon.bad("payer-delta", format!("payer balance changed by {} for a payment of {paid}", d(&sender)));
                     }
                     if d(&fa) != paid as i128 - disposed {
-                        bad("factory-delta", format!("factory balance changed by {}, paid {paid}, disposed {disposed}", d(&fa)));
+                        mon.bad("factory-delta", format!("factory balance changed by {}, paid {paid}, disposed {disposed}", d(&fa)));
                     }
                     // nothing else moved
                     let mut keys: Vec<&(String, String)> = b0.keys().chain(b1.keys()).collect();
@@ -707,24 +1169,34 @@ impl S {
                         let same = b0.get(k) == b1.get(k);
                         let expected = k.1 == fd && (k.0 == sender || k.0 == fa || k.0 == POOL || k.0 == dao);
                         if !same && !expected {
-                            bad("unexpected-transfer", format!("balance of {:?} changed {:?} -> {:?}", k, b0.get(k), b1.get(k)));
+                            mon.bad("unexpected-transfer", format!("balance of {:?} changed {:?} -> {:?}", k, b0.get(k), b1.get(k)));
                         }
                     }
                 }
+                if !m.is_empty() {
+                    let mid = self.id_of(&m);
+                    self.gm.insert(mid, GM { addr: m.clone(), f, code: p.code, n, per, creator: creator.clone(), sender: sender.clone(), start });
+                }
+                let (bp, bd) = self.bank_obs(&fa, &sender, p.fee.0);
+                let (cfgp, cfgd) = self.minter_obs(&m);
+                let (colp, cold) = self.coll_obs(&c);
                 format!(
-                    "ok m={} c={} mi={} ci={} cfg={} col={} {}",
-                    addr_id(&m),
-                    addr_id(&c),
+                    "ok m={} c={} mi={} ci={} cfg={} col={} {} ## cfgx={} colx={} {}",
+                    self.id_of(&m),
+                    self.id_of(&c),
                     self.info_obs(&m),
                     self.info_obs(&c),
-                    self.minter_obs(&m),
-                    self.coll_obs(&c),
-                    bank
+                    cfgp,
+                    colp,
+                    bp,
+                    cfgd,
+                    cold,
+                    bd
                 )
             }
         };
         if self.viol.is_none() {
-            self.viol = viol;
+            self.viol = mon.viol;
         }
         (line.to_string(), out)
     }
@@ -733,6 +1205,8 @@ impl S {
 impl Sut for S {
     fn begin(&mut self, header: &str) -> (String, String) {
         self.reset();
+        self.literal = kv(header, "literal") == Some("1");
+        self.usable = kv(header, "usable") == Some("1");
         (header.to_string(), "case".into())
     }
     fn exec(&mut self, line: &str) -> (String, String) {
@@ -820,6 +1294,7 @@ enum Fault {
     PerOver3pct,
     PriceUnder,
     PriceDenom,
+    PriceDenom2,
     StartPast,
     StartNow,
     StartBeforeGenesis,
@@ -848,7 +1323,7 @@ enum Fault {
     JunkAllowedCode,
     PoorSender,
 }
-const FAULTS: [Fault; 43] = [
+const FAULTS: [Fault; 44] = [
     Fault::None,
     Fault::FundsUnder,
     Fault::FundsOver1,
@@ -865,6 +1340,7 @@ const FAULTS: [Fault; 43] = [
     Fault::PerOver3pct,
     Fault::PriceUnder,
     Fault::PriceDenom,
+    Fault::PriceDenom2,
     Fault::StartPast,
     Fault::StartNow,
     Fault::StartBeforeGenesis,
@@ -1013,6 +1489,8 @@ fn apply_fault(rng: &mut Rng, c: &mut Cr, fault: Fault, p: &P, now: u64, wls: &[
             c.price.1 = p.minp.1 - 1
         }
         Fault::PriceDenom if has_price => c.price.0 = (p.minp.0 + 1) % 3,
+        // the other wrong denom: under a NON-native minimum this is the native one
+        Fault::PriceDenom2 if has_price => c.price.0 = (p.minp.0 + 2) % 3,
         Fault::StartPast if has_sale => c.start = now.saturating_sub(1),
         Fault::StartNow if has_sale => c.start = now,
         Fault::StartBeforeGenesis if has_sale => c.start = GENESIS - 1,
@@ -1111,7 +1589,8 @@ fn random_params(rng: &mut Rng, kind: FactoryKind) -> P {
         2 => 3,
         _ => 1_000_000 + rng.sized_u128(34),
     };
-    let minp = (0u64, *rng.pick(&[0u128, 1, 50_000_000, 50_000_000]));
+    // instantiate stores the minimum price verbatim, so a non-native minimum is a reachable parameter setting
+    let minp = (if rng.chance(1, 4) { 1u64 } else { 0 }, *rng.pick(&[0u128, 1, 50_000_000, 50_000_000]));
     let has_ext = kind != FactoryKind::Base;
     P {
         kind,
@@ -1217,8 +1696,10 @@ fn params_update_line(rng: &mut Rng, f: u64, p: &P) -> (String, String) {
     (upd_line(f, &fields), what.to_string())
 }
 
+#[derive(Clone, Debug)]
 struct Created {
     m: u64,
+    sender: u64,
     code: u64,
     n: u64,
     admin: u64,
@@ -1231,6 +1712,7 @@ fn parse_created(line: &str, out: &str, code: u64) -> Option<Created> {
     }
     Some(Created {
         m: kv_u64(out, "m")?,
+        sender: kv_u64(line, "sender")?,
         code,
         n: kv_opt_u64(line, "n").flatten().unwrap_or(0),
         admin: match AF::parse(line, "creator") {
@@ -1242,8 +1724,86 @@ fn parse_created(line: &str, out: &str, code: u64) -> Option<Created> {
 }
 
 fn class_of(p: &P, fault: Fault, out: &str) -> String {
-    format!("create:{:?}:code{}:{:?}:{}:fee{}", p.kind, p.code, fault, if out.starts_with("ok") { "ok" } else { "err" }, if p.fee.0 == 0 { "native" } else { "other" })
+    format!(
+        "create:{:?}:code{}:{:?}:{}:fee{}:minp{}:airp{}",
+        p.kind,
+        p.code,
+        fault,
+        if out.starts_with("ok") { "ok" } else { "err" },
+        if p.fee.0 == 0 { "native" } else { "other" },
+        if p.minp.0 == 0 { "native" } else { "other" },
+        if p.airp.1 == 0 { "zero" } else { "set" }
+    )
 }
+
+/// `(minp denom, airp amount)` passes of the directed grid per factory: a NON-native minimum price (instantiate stores it verbatim)
+/// and, for open editions, a non-zero airdrop price (so that messages without a token cap are not all rejected by
+/// `NoTokenLimitWithZeroAirdropPrice`, which would mask the three cap clauses of the property)
+fn grid_passes(kind: FactoryKind) -> Vec<(u64, u128)> {
+    match kind {
+        FactoryKind::Vending => vec![(0, 0), (1, 0)],
+        FactoryKind::OpenEdition => vec![(0, 0), (0, 5), (1, 5)],
+        _ => vec![(0, 0)],
+    }
+}
+
+/// per-address-limit probing of one created minter (bounds, stranger, payer vs creator, funds, after governance moved the bound)
+fn probe_limits(ses: &mut Session, sut: &mut S, cr: &Created, has_ext: bool) {
+    let p = sut.ghost(cr.f);
+    let b = three_bound(cr.code, cr.n, p.maxper);
+    let who = if cr.sender != cr.admin { "other-creator" } else { "self-creator" };
+    for l in [0, 1, b.saturating_sub(1), b, b + 1, p.maxper, p.maxper + 1] {
+        let o = ses.step(sut, &format!("setlimit m={} sender={} funds=- limit={l}", cr.m, cr.admin));
+        ses.mark(format!("setlimit:code{}:{}:{}", cr.code, if l == 0 { "zero" } else if l <= b { "within" } else if l <= p.maxper { "over3pct" } else { "overmax" }, &o[..2]));
+    }
+    let o = ses.step(sut, &format!("setlimit m={} sender=77 funds=- limit=1", cr.m));
+    ses.mark(format!("setlimit:stranger:{}", &o[..2]));
+    if cr.sender != cr.admin {
+        // created on someone else's behalf: the creator named in the request administers the limit, the payer does not
+        let o = ses.step(sut, &format!("setlimit m={} sender={} funds=- limit=1", cr.m, cr.sender));
+        ses.mark(format!("setlimit:{who}:payer:{}", &o[..2]));
+        let o = ses.step(sut, &format!("setlimit m={} sender={} funds=- limit=1", cr.m, cr.admin));
+        ses.mark(format!("setlimit:{who}:creator:{}", &o[..2]));
+    }
+    let o = ses.step(sut, &format!("setlimit m={} sender={} funds=0:1 limit=1", cr.m, cr.admin));
+    ses.mark(format!("setlimit:funds:{}", &o[..2]));
+    if has_ext {
+        ses.step(sut, &upd(cr.f, "maxper", (b + 2).to_string()));
+        for l in [b, b + 1, b + 2, b + 3] {
+            let o = ses.step(sut, &format!("setlimit m={} sender={} funds=- limit={l}", cr.m, cr.admin));
+            ses.mark(format!("setlimit-after-governance:code{}:{}:{}", cr.code, l as i64 - b as i64, &o[..2]));
+        }
+        ses.step(sut, &upd(cr.f, "maxper", "1".into()));
+        for l in [1, 2] {
+            let o = ses.step(sut, &format!("setlimit m={} sender={} funds=- limit={l}", cr.m, cr.admin));
+            ses.mark(format!("setlimit-after-lowering:code{}:{l}:{}", cr.code, &o[..2]));
+        }
+        ses.step(sut, &upd(cr.f, "maxper", p.maxper.to_string()));
+    }
+}
+
+/// every ExecuteMsg variant of the minter's crate (enumerated from its JSON schema at run time) other than
+/// `update_per_address_limit`, sent by the minter's admin with minimal arguments: none may move the per-address limit
+fn probe_surface(ses: &mut Session, sut: &mut S, cr: &Created) {
+    let variants: Vec<String> = sut.surface.minter.get(&cr.code).map(|v| v.iter().map(|x| x.0.clone()).collect()).unwrap_or_default();
+    for v in variants {
+        let known = KNOWN_MINTER_EXEC.contains(&v.as_str());
+        ses.mark(format!("surface:minter:code{}:{}{}", cr.code, v, if known { "" } else { ":UNKNOWN" }));
+        if !known {
+            ses.note(format!("minter code {} has an ExecuteMsg variant this check has no named op for: `{v}` (sent as raw JSON under the per-address-limit monitor)", cr.code));
+        }
+        if v == "update_per_address_limit" {
+            continue;
+        }
+        let o = ses.step(sut, &format!("probe m={} sender={} variant={v}", cr.m, cr.admin));
+        ses.mark(format!("probe:minter:code{}:{v}:{}", cr.code, drift_part(&o)));
+    }
+}
+
+const KNOWN_MINTER_EXEC: [&str; 15] = [
+    "mint", "mint_to", "mint_for", "shuffle", "purge", "burn_remaining", "receive_nft", "set_whitelist", "update_mint_price", "update_start_time",
+    "update_end_time", "update_start_trading_time", "update_per_address_limit", "update_discount_price", "remove_discount_price",
+];
 
 fn main() {
     let mut ses = Session::new("C08");
@@ -1263,142 +1823,253 @@ fn main() {
     let kinds = [FactoryKind::Vending, FactoryKind::OpenEdition, FactoryKind::TokenMerge, FactoryKind::Base];
     let fund_lines = |who: u64| -> Vec<String> { (0..3).map(|d| format!("fund who={who} denom={d} amt=1000000000000000000000000")).collect() };
 
+    // ---------------------------------------------------------------- 0. fixed scenarios (observations; see docs/C08.md)
+    // 0a. created on someone else's behalf: the payer is the minter's wasm (migration) admin, the creator named in the request is
+    //     not. Generated runs use the proved reading (`C08_post_wiring`); the corpus replay with `literal=1` switches the monitor
+    //     of the literal reading on (corpus/C08/minter-wasm-admin-is-payer.json).
+    {
+        ses.begin_case(&mut sut, "case fixed=wasm-admin-is-payer");
+        let now = GENESIS + 77 * NS;
+        ses.step(&mut sut, &format!("time t={now}"));
+        ses.step(&mut sut, "fund who=10 denom=0 amt=1000000000000");
+        let p0 = P { kind: FactoryKind::Vending, code: 1, allowed: vec![16], frozen: false, fee: (0, 5_000_000), minp: (0, 50_000_000), off: 604_800, maxtok: 200, maxper: 5, airp: (0, 0) };
+        let out = ses.step(&mut sut, &mkfactory_line(&p0));
+        let f = kv_u64(&out, "f").unwrap();
+        let mut c = baseline(&mut rng, f, &p0, now, &[]);
+        c.sender = 10;
+        c.creator = AF::Id(13);
+        let o = ses.step(&mut sut, &c.line());
+        if let Some(m) = kv_u64(&o, "m") {
+            let o1 = ses.step(&mut sut, &format!("migrate m={m} sender=13"));
+            let o2 = ses.step(&mut sut, &format!("migrate m={m} sender=10"));
+            ses.mark(format!("observed:migrate:creator:{}:payer:{}", primary_part(&o1), primary_part(&o2)));
+            ses.note(format!("minter created by payer 10 for creator 13: wasm-admin check creator `{}` payer `{}` (the payer can migrate the creator's minter)", o1, o2));
+        }
+        ses.end_case();
+    }
+    // 0b. which collection codes can a created minter actually mint into? (OUTSIDE the property text: C08 speaks about creation.)
+    //     A vending minter sends `extension: None` with every mint; sg721-metadata-onchain (code 19) needs a `Metadata` object.
+    for (kind, code) in [(FactoryKind::Vending, 1u64), (FactoryKind::OpenEdition, 7)] {
+        for sg in [16u64, 17, 18, 19] {
+            ses.begin_case(&mut sut, &format!("case fixed=mint-after-create kind={:?} sg721={sg}", kind));
+            let now = GENESIS + 77 * NS;
+            ses.step(&mut sut, &format!("time t={now}"));
+            ses.step(&mut sut, "fund who=10 denom=0 amt=1000000000000");
+            ses.step(&mut sut, "fund who=20 denom=0 amt=1000000000000");
+            let p0 = P { kind, code, allowed: vec![16, 17, 18, 19], frozen: false, fee: (0, 5_000_000), minp: (0, 50_000_000), off: 604_800, maxtok: 200, maxper: 5, airp: (0, 0) };
+            let out = ses.step(&mut sut, &mkfactory_line(&p0));
+            let f = kv_u64(&out, "f").unwrap();
+            let mut c = baseline(&mut rng, f, &p0, now, &[]);
+            c.sender = 10;
+            c.creator = AF::Id(10);
+            c.sg721 = sg;
+            c.wl = AF::Absent;
+            c.start = now + 10 * NS;
+            c.trade = None;
+            c.end = if kind == FactoryKind::OpenEdition { Some(now + 1000 * NS) } else { None };
+            c.n = Some(50);
+            c.per = 2;
+            let o = ses.step(&mut sut, &c.line());
+            ses.mark(format!("observed:create:{:?}:sg721-{sg}:{}", kind, &o[..2]));
+            if let Some(m) = kv_u64(&o, "m") {
+                ses.step(&mut sut, &format!("time t={}", now + 20 * NS));
+                let o = ses.step(&mut sut, &format!("probe m={m} sender=20 variant=mint funds={}", coin_s(c.price)));
+                ses.mark(format!("observed:mint-after-create:{:?}:sg721-{sg}:{}", kind, drift_part(&o)));
+                if drift_part(&o) == "err" {
+                    ses.note(format!("OBSERVATION (outside C08's text): a {:?} minter created with collection code {sg} rejects a fully paid public mint after its start time — created, fee spent, cannot mint", kind));
+                }
+            }
+            ses.end_case();
+        }
+    }
+
     // ---------------------------------------------------------------- 1. the grid: every fault × every factory × every minter code,
     // against default parameters, then against parameters moved by governance so that the same message flips.
     for kind in kinds {
+        // the factory's own message surface, enumerated at run time
+        let fvariants: Vec<String> = sut.surface.factory.get(&fk_idx(kind)).map(|v| v.iter().map(|x| x.0.clone()).collect()).unwrap_or_default();
         for code in family_codes(kind).into_iter().chain(if matches!(kind, FactoryKind::Vending | FactoryKind::OpenEdition) { vec![11u64] } else { vec![] }) {
             for fee_denom in [0u64, 1] {
-                ses.begin_case(&mut sut, &format!("case grid kind={:?} code={code} feedenom={fee_denom}", kind));
-                let now = GENESIS + 5_000 * NS;
-                ses.step(&mut sut, &format!("time t={now}"));
-                for who in [10u64, 12] {
-                    for l in fund_lines(who) {
-                        ses.step(&mut sut, &l);
+                for (minpd, airpa) in grid_passes(kind) {
+                    ses.begin_case(&mut sut, &format!("case grid kind={:?} code={code} feedenom={fee_denom} minpdenom={minpd} airp={airpa}", kind));
+                    let now = GENESIS + 5_000 * NS;
+                    ses.step(&mut sut, &format!("time t={now}"));
+                    for who in [10u64, 12] {
+                        for l in fund_lines(who) {
+                            ses.step(&mut sut, &l);
+                        }
                     }
-                }
-                let has_ext = kind != FactoryKind::Base;
-                let p0 = P {
-                    kind,
-                    code,
-                    allowed: vec![16, 17, 18],
-                    frozen: false,
-                    fee: (fee_denom, 5_000_000),
-                    minp: if kind == FactoryKind::TokenMerge { (0, 0) } else { (0, 50_000_000) },
-                    off: 604_800,
-                    maxtok: if has_ext { 200 } else { 0 },
-                    maxper: if has_ext { 5 } else { 0 },
-                    airp: (0, 0),
-                };
-                let out = ses.step(&mut sut, &mkfactory_line(&p0));
-                let f = kv_u64(&out, "f").unwrap();
-                let mut wls: Vec<Wl> = vec![];
-                for flex in [false, true] {
-                    let (s, e) = (now + 100 * NS, now + 200 * NS);
-                    let o = ses.step(&mut sut, &format!("mkwl flex={} start={s} end={e}", flex as u8));
-                    if let Some(id) = kv_u64(&o, "wl") {
-                        wls.push(Wl { id, flex, start: s, end: e });
-                    }
-                }
-                let mut created: Vec<Created> = vec![];
-                for fault in FAULTS {
-                    let p = sut.read_params(&addr(f), kind).unwrap();
-                    let mut c = baseline(&mut rng, f, &p, now, &wls);
-                    if !apply_fault(&mut rng, &mut c, fault, &p, now, &wls, f) {
-                        continue;
-                    }
-                    let line = c.line();
-                    let o = ses.step(&mut sut, &line);
-                    ses.mark(class_of(&p, fault, &o));
-                    if let Some(cr) = parse_created(&line, &o, p.code) {
-                        created.push(cr);
-                    }
-                    // governance moves the bound; the very same message is sent again, then the bound moves back
-                    let shift: Option<(String, String)> = match fault {
-                        Fault::NOver if has_ext => Some((upd(f, "maxtok", (p.maxtok + 1).to_string()), upd(f, "maxtok", p.maxtok.to_string()))),
-                        Fault::PerOverMax if has_ext => Some((upd(f, "maxper", (p.maxper + 1).to_string()), upd(f, "maxper", p.maxper.to_string()))),
-                        Fault::PriceUnder => Some((upd(f, "minp", coin_s((0, p.minp.1 - 1))), upd(f, "minp", coin_s(p.minp)))),
-                        Fault::FundsUnder => Some((upd(f, "fee", coin_s((p.fee.0, p.fee.1 - 1))), upd(f, "fee", coin_s(p.fee)))),
-                        Fault::FundsOver1 => Some((upd(f, "fee", coin_s((p.fee.0, p.fee.1 + 1))), upd(f, "fee", coin_s(p.fee)))),
-                        Fault::CodeNotAllowed if c.sg721 != 999 => Some((upd(f, "add", c.sg721.to_string()), upd(f, "rm", c.sg721.to_string()))),
-                        Fault::None => Some((upd(f, "frozen", "1".into()), upd(f, "frozen", "0".into()))),
-                        Fault::FundsWrongDenom => Some((upd(f, "fee", coin_s(c.funds[0])), upd(f, "fee", coin_s(p.fee)))),
-                        Fault::TradeOver => Some((upd(f, "off", (p.off + 1).to_string()), upd(f, "off", p.off.to_string()))),
-                        _ => None,
+                    let has_ext = kind != FactoryKind::Base;
+                    let oe = kind == FactoryKind::OpenEdition;
+                    let p0 = P {
+                        kind,
+                        code,
+                        allowed: vec![16, 17, 18],
+                        frozen: false,
+                        fee: (fee_denom, 5_000_000),
+                        minp: if kind == FactoryKind::TokenMerge { (0, 0) } else { (minpd, 50_000_000) },
+                        off: 604_800,
+                        maxtok: if has_ext { 200 } else { 0 },
+                        maxper: if has_ext { 5 } else { 0 },
+                        airp: (0, airpa),
                     };
-                    if let Some((go, back)) = shift {
-                        ses.step(&mut sut, &go);
-                        let p2 = sut.read_params(&addr(f), kind).unwrap();
-                        let o2 = ses.step(&mut sut, &line);
-                        ses.mark(format!("{}:after-governance", class_of(&p2, fault, &o2)));
-                        if let Some(cr) = parse_created(&line, &o2, p2.code) {
+                    let out = ses.step(&mut sut, &mkfactory_line(&p0));
+                    let f = kv_u64(&out, "f").unwrap();
+                    for v in &fvariants {
+                        ses.mark(format!("surface:factory:{:?}:{v}", kind));
+                        if v != "create_minter" {
+                            ses.note(format!("{} has an ExecuteMsg variant other than create_minter: `{v}` (sent as raw JSON under the nothing-is-created monitor)", fk_name(kind)));
+                            let o = ses.step(&mut sut, &format!("probe m={f} sender=10 variant={v}"));
+                            ses.mark(format!("probe:factory:{:?}:{v}:{}", kind, drift_part(&o)));
+                        }
+                    }
+                    let mut wls: Vec<Wl> = vec![];
+                    for flex in [false, true] {
+                        let (s, e) = (now + 100 * NS, now + 200 * NS);
+                        let o = ses.step(&mut sut, &format!("mkwl flex={} start={s} end={e}", flex as u8));
+                        if let Some(id) = kv_u64(&o, "wl") {
+                            wls.push(Wl { id, flex, start: s, end: e });
+                        }
+                    }
+                    let mut created: Vec<Created> = vec![];
+                    for fault in FAULTS {
+                        let p = sut.ghost(f);
+                        let mut c = baseline(&mut rng, f, &p, now, &wls);
+                        if !apply_fault(&mut rng, &mut c, fault, &p, now, &wls, f) {
+                            continue;
+                        }
+                        let line = c.line();
+                        let o = ses.step(&mut sut, &line);
+                        ses.mark(class_of(&p, fault, &o));
+                        if let Some(cr) = parse_created(&line, &o, p.code) {
                             created.push(cr);
                         }
-                        ses.step(&mut sut, &back);
+                        // governance moves the bound; the very same message is sent again, then the bound moves back
+                        let two = |a: (&'static str, String), b: (&'static str, String)| -> String {
+                            let mut m = BTreeMap::new();
+                            m.insert(a.0, a.1);
+                            m.insert(b.0, b.1);
+                            upd_line(f, &m)
+                        };
+                        let shift: Option<(String, String)> = match fault {
+                            Fault::NOver if has_ext => Some((upd(f, "maxtok", (p.maxtok + 1).to_string()), upd(f, "maxtok", p.maxtok.to_string()))),
+                            Fault::PerOverMax if has_ext => Some((upd(f, "maxper", (p.maxper + 1).to_string()), upd(f, "maxper", p.maxper.to_string()))),
+                            // (sudo only accepts a native minimum: under a non-native one the bound cannot be moved)
+                            Fault::PriceUnder if p.minp.0 == 0 => Some((upd(f, "minp", coin_s((0, p.minp.1 - 1))), upd(f, "minp", coin_s(p.minp)))),
+                            Fault::FundsUnder => Some((upd(f, "fee", coin_s((p.fee.0, p.fee.1 - 1))), upd(f, "fee", coin_s(p.fee)))),
+                            Fault::FundsOver1 => Some((upd(f, "fee", coin_s((p.fee.0, p.fee.1 + 1))), upd(f, "fee", coin_s(p.fee)))),
+                            Fault::CodeNotAllowed if c.sg721 != 999 => Some((upd(f, "add", c.sg721.to_string()), upd(f, "rm", c.sg721.to_string()))),
+                            Fault::None => Some((upd(f, "frozen", "1".into()), upd(f, "frozen", "0".into()))),
+                            Fault::FundsWrongDenom => Some((upd(f, "fee", coin_s(c.funds[0])), upd(f, "fee", coin_s(p.fee)))),
+                            Fault::TradeOver => Some((upd(f, "off", (p.off + 1).to_string()), upd(f, "off", p.off.to_string()))),
+                            // the open-edition cap clauses: flip the airdrop price (zero ⇒ every cap-less message is rejected for THAT
+                            // reason; non-zero ⇒ the property's own clauses decide), and for the zero-price clause also drop the minimum
+                            Fault::NoCap | Fault::NoEndNoCap if oe => Some((upd(f, "airp", coin_s((0, if p.airp.1 == 0 { 5 } else { 0 }))), upd(f, "airp", coin_s(p.airp)))),
+                            Fault::ZeroPriceNoCap if oe && p.minp.0 == 0 => Some((two(("airp", coin_s((0, 5))), ("minp", coin_s((0, 0)))), two(("airp", coin_s(p.airp)), ("minp", coin_s(p.minp))))),
+                            _ => None,
+                        };
+                        if let Some((go, back)) = shift {
+                            ses.step(&mut sut, &go);
+                            let p2 = sut.ghost(f);
+                            let o2 = ses.step(&mut sut, &line);
+                            ses.mark(format!("{}:after-governance", class_of(&p2, fault, &o2)));
+                            if let Some(cr) = parse_created(&line, &o2, p2.code) {
+                                created.push(cr);
+                            }
+                            ses.step(&mut sut, &back);
+                        }
                     }
-                }
-                // allow-listed code ids that are not collections: a whitelist code, a minter code, no code at all
-                ses.step(&mut sut, &upd(f, "add", "20,11,999".into()));
-                for junk in [20u64, 11, 999] {
-                    let p = sut.read_params(&addr(f), kind).unwrap();
-                    let mut c = baseline(&mut rng, f, &p, now, &wls);
-                    c.sg721 = junk;
-                    let o = ses.step(&mut sut, &c.line());
-                    ses.mark(format!("junk-allowed-code:{:?}:code{code}:{junk}:{}", kind, &o[..2]));
-                }
-                ses.step(&mut sut, &upd(f, "rm", "20,11,999".into()));
-                // a payer that owns exactly one fee: pays once, then cannot pay again; overpaying is impossible for it
-                {
-                    let p = sut.read_params(&addr(f), kind).unwrap();
-                    ses.step(&mut sut, &format!("fund who=17 denom={} amt={}", p.fee.0, p.fee.1));
-                    for (tag, extra) in [("over", 1u128), ("exact", 0), ("again", 0)] {
+                    // the open-edition cap clauses, each at its boundary, under a non-zero airdrop price and a zero minimum price
+                    // (when sudo can set one): (no cap, end, price 0) ✗ / (no cap, end, price 1) ✓ / (no cap, no end, price 1) ✗ /
+                    // (cap, no end, price 0) ✓ / (no cap, end = start+1 ns) ✓ / (no cap, end = start) ✗
+                    if oe {
+                        let p = sut.ghost(f);
+                        let zero_min = p.minp.0 == 0;
+                        if zero_min {
+                            ses.step(&mut sut, &upd(f, "minp", "0:0".into()));
+                        }
+                        ses.step(&mut sut, &upd(f, "airp", "0:5".into()));
+                        let pz = sut.ghost(f);
+                        let lo = pz.minp.1; // 0 when the minimum could be lowered
+                        let cases: [(&str, Option<u64>, Option<u64>, u128); 6] = [
+                            ("zero-price-no-cap", None, Some(1), 0),
+                            ("priced-no-cap", None, Some(86_400 * NS), lo.max(1)),
+                            ("no-end-no-cap", None, None, lo.max(1)),
+                            ("zero-price-capped-no-end", Some(7), None, lo),
+                            ("no-cap-end-just-after-start", None, Some(1), lo.max(1)),
+                            ("no-cap-end-at-start", None, Some(0), lo.max(1)),
+                        ];
+                        for (name, n, end_off, price) in cases {
+                            let mut c = baseline(&mut rng, f, &pz, now, &[]);
+                            c.n = n;
+                            c.per = 1;
+                            c.end = end_off.map(|d| c.start + d);
+                            c.price = (pz.minp.0, price);
+                            let line = c.line();
+                            let o = ses.step(&mut sut, &line);
+                            ses.mark(format!("oecap:{name}:{}:price{}:code{code}", &o[..2], if price == 0 { "zero" } else { "pos" }));
+                            if let Some(cr) = parse_created(&line, &o, pz.code) {
+                                created.push(cr);
+                            }
+                        }
+                        ses.step(&mut sut, &upd(f, "airp", coin_s(p.airp)));
+                        if zero_min {
+                            ses.step(&mut sut, &upd(f, "minp", coin_s(p.minp)));
+                        }
+                    }
+                    // allow-listed code ids that are not collections: a whitelist code, a minter code, no code at all
+                    ses.step(&mut sut, &upd(f, "add", "20,11,999".into()));
+                    for junk in [20u64, 11, 999] {
+                        let p = sut.ghost(f);
                         let mut c = baseline(&mut rng, f, &p, now, &wls);
-                        c.sender = 17;
-                        c.funds = vec![(p.fee.0, p.fee.1 + extra)];
+                        c.sg721 = junk;
                         let o = ses.step(&mut sut, &c.line());
-                        ses.mark(format!("poor-sender:{:?}:code{code}:{tag}:{}", kind, &o[..2]));
+                        ses.mark(format!("junk-allowed-code:{:?}:code{code}:{junk}:{}", kind, &o[..2]));
                     }
-                }
-                // whitelist activity: exact instants
-                if matches!(kind, FactoryKind::Vending | FactoryKind::OpenEdition) && code != 11 {
-                    let flex_needed = matches!(code, 3 | 4 | 8);
-                    if let Some(w) = wls.iter().find(|w| w.flex == flex_needed).cloned() {
-                        for t in [w.start - 1, w.start, w.end - 1, w.end] {
-                            ses.step(&mut sut, &format!("time t={t}"));
-                            let p = sut.read_params(&addr(f), kind).unwrap();
-                            let mut c = baseline(&mut rng, f, &p, t, &wls);
-                            c.wl = AF::Id(w.id);
+                    ses.step(&mut sut, &upd(f, "rm", "20,11,999".into()));
+                    // a payer that owns exactly one fee: pays once, then cannot pay again; overpaying is impossible for it
+                    {
+                        let p = sut.ghost(f);
+                        ses.step(&mut sut, &format!("fund who=17 denom={} amt={}", p.fee.0, p.fee.1));
+                        for (tag, extra) in [("over", 1u128), ("exact", 0), ("again", 0)] {
+                            let mut c = baseline(&mut rng, f, &p, now, &wls);
+                            c.sender = 17;
+                            c.funds = vec![(p.fee.0, p.fee.1 + extra)];
                             let o = ses.step(&mut sut, &c.line());
-                            ses.mark(format!("wl-instant:{:?}:code{code}:{}:{}", kind, if t < w.start { "before" } else if t < w.end { "active" } else { "after" }, &o[..2]));
+                            ses.mark(format!("poor-sender:{:?}:code{code}:{tag}:{}", kind, &o[..2]));
                         }
                     }
+                    // whitelist activity: exact instants
+                    if matches!(kind, FactoryKind::Vending | FactoryKind::OpenEdition) && code != 11 {
+                        let flex_needed = matches!(code, 3 | 4 | 8);
+                        if let Some(w) = wls.iter().find(|w| w.flex == flex_needed).cloned() {
+                            for t in [w.start - 1, w.start, w.end - 1, w.end] {
+                                ses.step(&mut sut, &format!("time t={t}"));
+                                let p = sut.ghost(f);
+                                let mut c = baseline(&mut rng, f, &p, t, &wls);
+                                c.wl = AF::Id(w.id);
+                                let o = ses.step(&mut sut, &c.line());
+                                ses.mark(format!("wl-instant:{:?}:code{code}:{}:{}", kind, if t < w.start { "before" } else if t < w.end { "active" } else { "after" }, &o[..2]));
+                            }
+                        }
+                    }
+                    // per-address-limit updates on what was created, against moved governance bounds: the first four, the last four,
+                    // and every minter created on someone else's behalf (creator ≠ payer)
+                    let mut pick: Vec<usize> = (0..created.len().min(4)).collect();
+                    pick.extend(created.len().saturating_sub(4)..created.len());
+                    pick.extend(created.iter().enumerate().filter(|(_, c)| c.sender != c.admin).map(|(i, _)| i).take(3));
+                    pick.sort();
+                    pick.dedup();
+                    for i in &pick {
+                        let cr = created[*i].clone();
+                        probe_limits(&mut ses, &mut sut, &cr, has_ext);
+                    }
+                    // the rest of the minter's message surface must leave the limit alone
+                    if let Some(cr) = created.first().cloned() {
+                        probe_surface(&mut ses, &mut sut, &cr);
+                    }
+                    ses.end_case();
                 }
-                // per-address-limit updates on what was created, against moved governance bounds
-                for cr in created.iter().take(6) {
-                    let p = sut.read_params(&addr(cr.f), kind).unwrap();
-                    let b = three_bound(cr.code, cr.n, p.maxper);
-                    for l in [0, 1, b.saturating_sub(1), b, b + 1, p.maxper, p.maxper + 1] {
-                        let o = ses.step(&mut sut, &format!("setlimit m={} sender={} funds=- limit={l}", cr.m, cr.admin));
-                        ses.mark(format!("setlimit:code{}:{}:{}", cr.code, if l == 0 { "zero" } else if l <= b { "within" } else if l <= p.maxper { "over3pct" } else { "overmax" }, &o[..2]));
-                    }
-                    let o = ses.step(&mut sut, &format!("setlimit m={} sender=77 funds=- limit=1", cr.m));
-                    ses.mark(format!("setlimit:stranger:{}", &o[..2]));
-                    let o = ses.step(&mut sut, &format!("setlimit m={} sender={} funds=0:1 limit=1", cr.m, cr.admin));
-                    ses.mark(format!("setlimit:funds:{}", &o[..2]));
-                    if has_ext {
-                        ses.step(&mut sut, &upd(cr.f, "maxper", (b + 2).to_string()));
-                        for l in [b, b + 1, b + 2, b + 3] {
-                            let o = ses.step(&mut sut, &format!("setlimit m={} sender={} funds=- limit={l}", cr.m, cr.admin));
-                            ses.mark(format!("setlimit-after-governance:code{}:{}:{}", cr.code, l as i64 - b as i64, &o[..2]));
-                        }
-                        ses.step(&mut sut, &upd(cr.f, "maxper", "1".into()));
-                        for l in [1, 2] {
-                            let o = ses.step(&mut sut, &format!("setlimit m={} sender={} funds=- limit={l}", cr.m, cr.admin));
-                            ses.mark(format!("setlimit-after-lowering:code{}:{l}:{}", cr.code, &o[..2]));
-                        }
-                        ses.step(&mut sut, &upd(cr.f, "maxper", p.maxper.to_string()));
-                    }
-                }
-                ses.end_case();
             }
         }
     }
@@ -1422,12 +2093,12 @@ fn main() {
         for n in ns {
             let b = if n < 100 { 3 } else { ceil3pct(n) };
             for per in [b.saturating_sub(1).max(1), b, b + 1, 9, 10] {
-                let p = sut.read_params(&addr(f), kind).unwrap();
+                let p = sut.ghost(f);
                 let mut c = baseline(&mut rng, f, &p, now, &[]);
                 c.n = Some(n);
                 c.per = per;
                 let o = ses.step(&mut sut, &c.line());
-                ses.mark(format!("3pct:code{code}:n{}:{}:{}", if n < 100 { "lt100".to_string() } else { format!("{}", n % 100 % 34 == 0) }, per as i64 - b as i64, &o[..2]));
+                ses.mark(format!("3pct:code{code}:{}:{}:{}", if n < 100 { "lt100" } else { "ge100" }, per as i64 - b as i64, &o[..2]));
             }
         }
         ses.end_case();
@@ -1472,7 +2143,7 @@ fn main() {
         let nops = rng.range(8, 28);
         for _ in 0..nops {
             let (f, k) = *rng.pick(&facs);
-            let p = sut.read_params(&addr(f), k).unwrap();
+            let p = sut.ghost(f);
             match rng.below(20) {
                 0..=11 => {
                     let mut c = baseline(&mut rng, f, &p, now, &wls);
@@ -1504,27 +2175,107 @@ fn main() {
                     }
                     ses.step(&mut sut, &format!("time t={now}"));
                 }
+                17 if !created.is_empty() && rng.chance(1, 3) => {
+                    // a random other message of the minter's surface, by its admin or by the payer
+                    let cr = rng.pick(&created).clone();
+                    let vs: Vec<String> = sut.surface.minter.get(&cr.code).map(|v| v.iter().map(|x| x.0.clone()).filter(|n| n != "update_per_address_limit").collect()).unwrap_or_default();
+                    if !vs.is_empty() {
+                        let v = rng.pick(&vs).clone();
+                        let who = if rng.chance(1, 4) { cr.sender } else { cr.admin };
+                        let o = ses.step(&mut sut, &format!("probe m={} sender={who} variant={v}", cr.m));
+                        ses.mark(format!("probe:random:{v}:{}", drift_part(&o)));
+                    }
+                }
                 _ => {
                     if created.is_empty() {
                         continue;
                     }
                     let cr = rng.pick(&created);
-                    let kf = facs.iter().find(|x| x.0 == cr.f).unwrap().1;
-                    let pf = sut.read_params(&addr(cr.f), kf).unwrap();
+                    let pf = sut.ghost(cr.f);
                     let b = three_bound(cr.code, cr.n, pf.maxper);
                     let l = *rng.pick(&[0, 1, b.saturating_sub(1), b, b + 1, pf.maxper, pf.maxper + 1]);
-                    let sender = if rng.chance(1, 8) { 77 } else { cr.admin };
+                    let sender = match rng.below(8) {
+                        0 => 77,
+                        1 => cr.sender,
+                        _ => cr.admin,
+                    };
                     let o = ses.step(&mut sut, &format!("setlimit m={} sender={sender} funds=- limit={l}", cr.m));
-                    ses.mark(format!("setlimit:random:code{}:{}:{}", cr.code, if sender == 77 { "stranger" } else if l == 0 { "zero" } else if l <= b { "within" } else { "over" }, &o[..2]));
+                    ses.mark(format!("setlimit:random:code{}:{}:{}", cr.code, if sender != cr.admin { "non-admin" } else if l == 0 { "zero" } else if l <= b { "within" } else { "over" }, &o[..2]));
                 }
             }
         }
         ses.end_case();
     }
+
+    // ---------------------------------------------------------------- coverage floor: without these the run would be vacuous
+    for (kind, code) in [("Vending", 1u64), ("Vending", 2), ("Vending", 3), ("Vending", 4), ("Vending", 5), ("Vending", 6), ("Vending", 11), ("OpenEdition", 7), ("OpenEdition", 8), ("OpenEdition", 9), ("OpenEdition", 11), ("TokenMerge", 10), ("Base", 11)] {
+        // a valid create of every factory × minter code succeeded, with a native and a non-native fee; the same one is rejected frozen
+        ses.require(format!("create:{kind}:code{code}:None:ok:feenative"));
+        ses.require(format!("create:{kind}:code{code}:None:ok:feeother"));
+        ses.require(format!("*create:{kind}:code{code}:None:err:feenative:minpnative:airpzero:after-governance*"));
+        ses.require(format!("create:{kind}:code{code}:FundsUnder:err"));
+        ses.require(format!("create:{kind}:code{code}:CodeNotAllowed:err"));
+        if kind != "Base" {
+            // accept at the bound, reject one above, accept again after governance moved the bound
+            ses.require(format!("create:{kind}:code{code}:NOver:err"));
+            ses.require(format!("create:{kind}:code{code}:PerOverMax:err"));
+            if code != 11 {
+                ses.require(format!("setlimit:code{code}:within:ok"));
+                ses.require(format!("setlimit:code{code}:overmax:er"));
+                ses.require(format!("setlimit:code{code}:zero:er"));
+                ses.require(format!("probe:minter:code{code}:"));
+            }
+        }
+        if kind == "Vending" || kind == "OpenEdition" {
+            // the minimum's denom, with a native and with a NON-native minimum
+            ses.require(format!("create:{kind}:code{code}:None:ok:feenative:minpother"));
+            ses.require(format!("create:{kind}:code{code}:PriceDenom:err:feenative:minpnative"));
+            ses.require(format!("create:{kind}:code{code}:PriceDenom2:err:feenative:minpother"));
+            ses.require(format!("create:{kind}:code{code}:PriceUnder:err"));
+        }
+        if kind == "OpenEdition" {
+            // each cap clause rejected AND its neighbour accepted, with the airdrop-price rule out of the way
+            ses.require(format!("oecap:zero-price-no-cap:er:pricezero:code{code}"));
+            ses.require(format!("oecap:priced-no-cap:ok:pricepos:code{code}"));
+            ses.require(format!("oecap:no-end-no-cap:er:pricepos:code{code}"));
+            ses.require(format!("oecap:zero-price-capped-no-end:ok:pricezero:code{code}"));
+            ses.require(format!("oecap:no-cap-end-just-after-start:ok:pricepos:code{code}"));
+            ses.require(format!("oecap:no-cap-end-at-start:er:pricepos:code{code}"));
+            ses.require(format!("create:{kind}:code{code}:NoCap:ok:feenative:minpnative:airpset"));
+            ses.require(format!("create:{kind}:code{code}:NoCap:err:feenative:minpnative:airpzero"));
+            ses.require(format!("create:{kind}:code{code}:NoEndNoCap:err:feenative:minpnative:airpset"));
+            ses.require(format!("create:{kind}:code{code}:StartNow:err"));
+            ses.require(format!("create:{kind}:code{code}:EndAtStart:err"));
+        }
+    }
+    for code in [1u64, 2, 5, 6, 10] {
+        for c in ["lt100:0:ok", "lt100:1:er", "ge100:0:ok", "ge100:1:er"] {
+            ses.require(format!("3pct:code{code}:{c}"));
+        }
+        ses.require(format!("setlimit:code{code}:over3pct:er"));
+    }
+    for code in [3u64, 4] {
+        ses.require(format!("3pct:code{code}:ge100:1:ok")); // the flex minters do not enforce the 3 % rule
+    }
+    ses.require("setlimit:other-creator:payer:er");
+    ses.require("setlimit:other-creator:creator:ok");
+    ses.require("setlimit:stranger:er");
+    ses.require("setlimit-after-governance:");
+    ses.require("setlimit-after-lowering:");
+    ses.require("wl-instant:Vending:code1:active:er");
+    ses.require("wl-instant:Vending:code1:before:ok");
+    ses.require("wl-instant:OpenEdition:code7:active:er");
+    for k in ["Vending", "OpenEdition", "TokenMerge", "Base"] {
+        ses.require(format!("surface:factory:{k}:create_minter"));
+    }
+    ses.require("observed:migrate:");
+    ses.require("observed:mint-after-create:Vending:sg721-16:ok");
+
     if std::env::var("C08_DUMP_CLASSES").is_ok() {
         let _ = std::fs::write(ses.args.out.join("classes.txt"), ses.classes.iter().cloned().collect::<Vec<_>>().join("\n"));
     }
     ses.note(format!("contract panics caught and rolled back: {}", sut.panics));
-    ses.note("every create is checked by monitors that transcribe the property from the real factory's Params query, the bank module's full balance table, ContractInfo, minter Config and collection Minter/Ownership/CollectionInfo queries");
+    ses.note(format!("ops after which the factory's Params query differed from the harness' ghost parameters: {} (C18 owns the query; C08's monitors use the ghost)", sut.ghost_query_diffs));
+    ses.note("every create is checked by monitors that transcribe the property from the harness' GHOST bookkeeping (parameters it sent, minters it created) and from the chain's registry and bank table; the factory's Params query and the minters' Config are observed and compared with the model, not trusted by the monitors");
     ses.finish(&mut sut);
 }
